@@ -24,6 +24,7 @@ func init() {
 		Title: "A search returns exactly the matching blobs, however it is planned",
 		Explanation: "Decided (structural necessary conditions, pkg/search/query.go): " +
 			"P-restrict — for every planner predicate (the *Constraint methods called from pickCandidateSource), on every acyclic CFG path to a return: a result that may restrict the candidates (true / possibly-valid ref / possibly non-empty slice) and that is obtained from a recursive call on an operand of c.Logical (by data flow, or for booleans by a positive branch on the recursive result) is returned only where the path establishes Op==\"and\", or Op==\"or\" together with restricting results from BOTH operands (and, for set/ref-valued predicates, a value built from both); under any other or no Op fact it is a violation; recursion on anything but c.Logical.A/B is undecided. " +
+			"P-leaf — for every restricting leaf path of a planner predicate (a path whose possibly restricting result is justified by the constraint's own fields, not by recursion): the fields the result relies on are reconstructed per constraint struct instance reached from the receiver (c, c.Permanode, c.File, c.Permanode.ValueMatches, ...): a field counts as tested when a branch on the path reads it AND taking the other edge leads to a different return statement or value (control dependence), or when the returned value is computed from it; small helpers that receive a constraint struct (e.g. a method on *StringConstraint) are followed path by path; what the path knows about each tested field (unset / set / == constant / bool method result) is kept. For each such struct the matcher is located from the code ((*Constraint).matcher() returns field matcherFn, whose only assignment is genMatcher's result; a sub-struct's matcher is the one method bound to / called on that field's value inside the parent's matcher family) and every OTHER field F of the struct that the matcher family reads (the matcher, the functions it hands the same struct to, its literals; blocks dead under the path's facts pruned) must be NARROWING: every branch whose outcome depends on F being set (a comparison of F with its zero value, a bool field, IsZero()/Valid() of it, a pure boolean helper such as hasValueConstraint whose result reacts monotonically to F — decided by exhaustive evaluation —, also through `x := a || b; if x` forwarding blocks and through a table of plain field getters resolved from the stores into the table's struct type) has a set side that, compared with the unset side, can only leave through panic / `return false` / a non-nil error (matcher builders: only calls the one literal that stores the added condition) and otherwise rejoins the unset side's code at one block with the same state (no phi at the join selects a different value for the two sides unless all its uses are again guarded by F's set-test or are dead because the fields whose tests the unset side passed are unset; no assignment to locals read later), or the unset side unconditionally reports a match; every other use of F's value lies inside a region dominated by the set-edge of such a test. A field whose set side returns a verdict of its own, changes a value the shared code uses afterwards (CaseInsensitive selecting the comparison table in stringMatches), or whose unset side performs a rejecting test the set side skips is MODAL: ignoring it in the predicate is a violation. A field used as a parameter outside its own guard, a constraint pointer that escapes, or a shape not covered is undecided. One recorded exception, re-checked structurally: matchesPermanodeTypes ignores PermanodeConstraint.At (only handed on as the time.Time argument of look-ups) because Corpus.permanodesSetByNodeType is add-only (no delete, fresh maps only, entries only set to true). genMatcher's combination of added conditions is checked as far as: allMustMatch.blobMatches leaves its loop early only with false/an error. " +
 			"P-nil-operand — a recursive call on operand B happens only under an Op fact for which checkValid guarantees B (and/or/xor), unless the predicate tolerates a nil receiver (every receiver dereference is under c!=nil). " +
 			"P-sorted — on every path of pickCandidateSource the returned source has a constant 'sorted'; sorted==true only with the enumerator that yields the requested order (EnumeratePermanodesLastModified under q.Sort==LastModifiedDesc, EnumeratePermanodesCreated(fn,true) under q.Sort==CreatedDesc). " +
 			"P-source-superset — every source is built from a classified enumerator and a restricted enumerator is entered only on paths where the predicate that justifies it returned a restricting result for q.Constraint (permanode enumerations under onlyMatchesPermanode; by-node-type with the very slice returned by matchesPermanodeTypes known non-empty; single blob with the very ref returned by matchesAtMostOneBlob known valid; camli blobs of type file under matchesFileByWholeRef; camli blobs of c.CamliType under AnyCamliType||CamliType!=\"\"); the executor compiles the matcher from the same constraint the planner looked at. " +
@@ -33,9 +34,10 @@ func init() {
 			"P-truncate — with an unsorted source, 0 < Limit < len(res.Blobs) and any sort but MapSort, every such path truncates res.Blobs by a bounded slice. " +
 			"P-nodup — every corpus enumerator a source is built from hands each blob to the callback at most once as far as its loop structure shows: the callback is invoked (directly or through one same-package helper) inside at most one loop, i.e. one pass over one collection; an invocation nested in two or more loops (several collections, or caller-supplied keys) must be guarded by a look-up in a map made in that function (a 'seen' set), or be a recorded exception (one symbol, one reason). " +
 			"P-memo — every branch in pkg/search on a map membership test m[k] whose 'found' edge bypasses a matcher call (a call returning bool or (bool, error) that takes k as a blob.Ref and has the matchFn signature, or is a pkg/search function working on a *search such as RelationConstraint.match, or is a helper / local literal that itself makes such a call on the parameter k arrives in) on that same k is a skip guard; today: permanodesChecked in the claim callback of (*RelationConstraint).match. For a memo map local to one invocation, every value that can become a key (the key of each map update, followed through all stores of the variables that feed it, e.g. lastChecked; zero-value resets excluded) must be remembered only where its evaluation completed: the assignment is dominated by the success edge (error result known nil) of a matcher call on that same value, or every path from the assignment to an exit of the callback passes such an edge, except exits that return false from a callback whose enumerators (resolved through phi / bound-method thunks, here Corpus.ForeachClaim and ForeachClaimBack) provably never call it again after false, with the memo consulted nowhere else. A remembered value that no matcher call evaluates, a memo whose map or feeder variables escape, and a guard on a map shared beyond one invocation (could be a traversal visited-set, where marking first is correct) are undecided. Set membership tests keyed by blob refs that bypass no matcher call (dr.started: started-set of the describe traversal; resFromRule: membership filter) are listed as classified, not judged. " +
-			"NOT decided: the meaning of each leaf constraint and of the leaf cases of the predicates (e.g. that a camliNodeType attribute constraint only matches that node type), matcher semantics per constraint kind, that the enumerators really enumerate a superset in the claimed order, that a single collection holds each blob once, that a memoised verdict is still valid for the later occurrence of the key (the memo key captures everything the verdict depends on), memos kept in anything but a map (slices, sorted lists), the sort comparators and which slice is sorted, the Around window arithmetic, MapSort selection, any concrete world or query.",
+			"NOT decided: the meaning of each leaf constraint and the base case of each leaf (e.g. that a PermanodeConstraint{Attr:camliNodeType, Value:T} with every other field unset only matches permanodes in the by-type set of T; that a predicate which does test a modal field draws the right conclusion from it); that a caller combines a sub-matcher's verdicts monotonically (the nmatch count in permanodeMatchesAttrVals) and that genMatcher's addCond bookkeeping retains every added condition; matcher semantics per constraint kind, that the enumerators really enumerate a superset in the claimed order, that a single collection holds each blob once, that a memoised verdict is still valid for the later occurrence of the key (the memo key captures everything the verdict depends on), memos kept in anything but a map (slices, sorted lists), the sort comparators and which slice is sorted, the Around window arithmetic, MapSort selection, any concrete world or query.",
 		RuleDocs: map[string]string{
 			"P-restrict":        "per planner predicate × Op label: contradiction rule over all acyclic paths — a may-restrict result derived from a recursive call needs Op==and, or Op==or with both operands restricting",
+			"P-leaf":            "per planner predicate × constraint struct its restricting leaf paths rely on × field of that struct the predicate does not test and the struct's matcher reads: the field is narrowing in the matcher (set side only rejects or rejoins with unchanged state; other uses guarded by its own set-test); modal ⇒ violation, unclassifiable ⇒ undecided; plus one row per struct (tested / unread fields), the all-must-match loop, and the add-only re-check of the At exception",
 			"P-nil-operand":     "per planner predicate: recursion on Logical.B only under Op in {and,or,xor} unless the predicate is nil-receiver tolerant",
 			"P-sorted":          "per candidate source (by src.name) of pickCandidateSource: sorted is constant per path; true only with the enumerator/sort pair that yields that order",
 			"P-source-superset": "per candidate source: restricted enumerator entered only under the restricting result of its justifying predicate on q.Constraint; matcher compiled from the same constraint",
@@ -49,8 +51,8 @@ func init() {
 		},
 		Run:       runC08,
 		DesignRef: "DESIGN.md §4 C08",
-		Technique: "static analysis: exhaustive acyclic-path enumeration over go/ssa with per-path phi resolution and branch facts (contradiction rule on the planner predicates, constant propagation and table agreement on the planner), dominance facts and assumption-pruned reachability in the executor; for skip-memos: key provenance through variable stores, success-edge dominance / must-pass-through of the matcher call, callback stop-protocol checked in the resolved enumerators",
-		LevelText: "Decides structural necessary conditions only: the planner predicates combine recursive results soundly for and/or/not/xor; a source is flagged sorted only when its enumerator yields the requested order; every restricted source is guarded by the predicate that justifies it, on the same constraint the matcher is compiled from; results are appended only on a match; results are dropped early only for sorted sources; unsorted sources are post-sorted and truncated; the relation matcher's 'already checked' memo remembers a relative only after the matcher really ran on it; the cached orders the sorted sources enumerate are invalidated by every live write of their inputs. Does not decide matcher semantics, leaf cases of the predicates, enumerator contents/order, comparators, or any concrete query.",
+		Technique: "static analysis: exhaustive acyclic-path enumeration over go/ssa with per-path phi resolution and branch facts (contradiction rule on the planner predicates, constant propagation and table agreement on the planner), for the leaf cases a relational (two-run) region argument on the matchers' CFGs: control dependence of the restricting return on field tests, set/unset divergence regions with harmless-exit, single-rejoin and state-equality checks, dominance-guarded uses, exhaustive evaluation of pure boolean helpers, field-based resolution of getter tables, dominance facts and assumption-pruned reachability in the executor; for skip-memos: key provenance through variable stores, success-edge dominance / must-pass-through of the matcher call, callback stop-protocol checked in the resolved enumerators",
+		LevelText: "Decides structural necessary conditions only: the planner predicates combine recursive results soundly for and/or/not/xor; a leaf case of a predicate ignores a field of the constraint only if that field can merely narrow what the matcher accepts (so the leaf is as sound for every constraint as it is for the one with all ignored fields unset); a source is flagged sorted only when its enumerator yields the requested order; every restricted source is guarded by the predicate that justifies it, on the same constraint the matcher is compiled from; results are appended only on a match; results are dropped early only for sorted sources; unsorted sources are post-sorted and truncated; the relation matcher's 'already checked' memo remembers a relative only after the matcher really ran on it; the cached orders the sorted sources enumerate are invalidated by every live write of their inputs. Does not decide matcher semantics, the base case of each leaf (all ignored fields unset), enumerator contents/order, comparators, or any concrete query.",
 	})
 }
 
@@ -592,7 +594,7 @@ func (a *c08PredAn) nilTolerant() bool {
 	return true
 }
 
-func c08RulePredicates(p *Program, r *Reporter, preds []*ssa.Function) {
+func c08RulePredicates(p *Program, r *Reporter, preds []*ssa.Function) (leaves []c08LeafPath) {
 	predSet := map[*ssa.Function]bool{}
 	for _, f := range preds {
 		predSet[f] = true
@@ -637,7 +639,7 @@ func c08RulePredicates(p *Program, r *Reporter, preds []*ssa.Function) {
 		}
 		leaf := 0
 		nilAgg := map[string]*agg{}
-		for _, pth := range paths {
+		for pi, pth := range paths {
 			last := pth[len(pth)-1]
 			ret, isRet := last.Instrs[len(last.Instrs)-1].(*ssa.Return)
 			brs := pth.branches()
@@ -706,6 +708,7 @@ func c08RulePredicates(p *Program, r *Reporter, preds []*ssa.Function) {
 			}
 			if len(just) == 0 {
 				leaf++
+				leaves = append(leaves, c08LeafPath{fn: fn, kind: a.kind, paths: paths, idx: pi, ret: ret})
 				continue
 			}
 			g := get(st.label())
@@ -758,7 +761,7 @@ func c08RulePredicates(p *Program, r *Reporter, preds []*ssa.Function) {
 				r.OK("P-restrict", c, s, fmt.Sprintf("%d path(s) return a result justified by recursion under Op==%q; all sound", g.ok, l))
 			}
 		}
-		r.OKTable("P-restrict", key+"#leaf", site, fmt.Sprintf("%d path(s) return a possibly restricting result justified by the constraint's own fields only (leaf semantics not decided)", leaf))
+		r.OKTable("P-restrict", key+"#leaf", site, fmt.Sprintf("%d path(s) return a possibly restricting result justified by the constraint's own fields only (judged by P-leaf as to the fields they ignore; their base case is not decided)", leaf))
 		for o, g := range nilAgg {
 			nNil++
 			c := key + "#operand-" + o
@@ -773,6 +776,7 @@ func c08RulePredicates(p *Program, r *Reporter, preds []*ssa.Function) {
 	_ = nInst
 	r.Floor("P-nil-operand", 4)
 	_ = nNil
+	return leaves
 }
 
 func c08Keys(m map[string]bool) []string {
@@ -1764,8 +1768,11 @@ func c08RuleExecutor(p *Program, r *Reporter, e *c08Exec, sorts map[int64]string
 		} else {
 			opaque = false
 			leaks := LeakingExits(PathQuery{
-				Start:        e.sendCall.Instr,
-				Stop:         func(in ssa.Instruction) bool { ci, ok := in.(ssa.CallInstruction); return ok && c08IsSortCall(CallSite{e.fn, ci}) },
+				Start: e.sendCall.Instr,
+				Stop: func(in ssa.Instruction) bool {
+					ci, ok := in.(ssa.CallInstruction)
+					return ok && c08IsSortCall(CallSite{e.fn, ci})
+				},
 				Assume:       mkAssume(false),
 				ExitOK:       exitOK,
 				IgnorePanics: true,
@@ -2676,7 +2683,8 @@ func runC08(p *Program, r *Reporter) {
 		brokenf("anchor unresolved: expected >= 8 exported SortType constants in pkg/search, found %d", len(sorts))
 	}
 
-	c08RulePredicates(p, r, preds)
+	leaves := c08RulePredicates(p, r, preds)
+	c08RuleLeaf(p, r, leaves, predSet)
 	c08RulePlanner(p, r, pick, predSet, sorts)
 	c08RuleNoDup(p, r)
 	c08RuleMemo(p, r)
@@ -2708,4 +2716,2678 @@ func c08RuleFresh(p *Program, r *Reporter) {
 		r.add("P-fresh", o.Construct, o.Site, o.Status, o.Nontrivial, o.Detail)
 	}
 	r.Floor("P-fresh", sub.floors["K-inval"])
+}
+
+// ---------------------------------------------------------------------------
+// P-leaf: the leaf cases of the planner predicates against the matchers
+//
+// A leaf path of a planner predicate returns a restricting result that is
+// justified by fields of the constraint only (no recursion). The predicate
+// side (part 1) reconstructs, per such path, which fields of which constraint
+// structs the result is control- or data-dependent on, and what the path knows
+// about them. The matcher side (part 2) then demands that every OTHER field of
+// those structs can only narrow the matcher's verdict.
+
+type c08LeafPath struct {
+	fn    *ssa.Function
+	kind  int
+	paths []c08Path
+	idx   int
+	ret   *ssa.Return
+}
+
+// c08Fact is what a predicate path knows about one field.
+type c08Fact struct {
+	kind string // "" tested without a usable fact | "zero" | "nonzero" | "eq" | "call"
+	str  string // eq: the constant (exact string); call: key of the bool method called on the field value
+	val  bool   // call: its result
+}
+
+func (f c08Fact) String() string {
+	switch f.kind {
+	case "zero":
+		return "unset"
+	case "nonzero":
+		return "set"
+	case "eq":
+		return "==" + f.str
+	case "call":
+		return fmt.Sprintf("%s()==%v", f.str[strings.LastIndex(f.str, ".")+1:], f.val)
+	}
+	return "tested"
+}
+
+func (f c08Fact) rank() int {
+	switch f.kind {
+	case "eq":
+		return 3
+	case "zero", "nonzero", "call":
+		return 2
+	}
+	return 1
+}
+
+// c08FieldRef names field `field` of the constraint struct instance reached
+// from the predicate's receiver by access path inst ("c", "c.Permanode", ...).
+type c08FieldRef struct {
+	inst  string
+	named *types.Named
+	field string
+}
+
+type c08LeafFact struct {
+	ref  c08FieldRef
+	fact c08Fact
+}
+
+type c08Inst struct {
+	path  string
+	named *types.Named
+	from  *c08FieldRef // the pointer field the instance was loaded from; nil for the receiver
+}
+
+func c08Struct(n *types.Named) *types.Struct {
+	if n == nil {
+		return nil
+	}
+	st, _ := n.Underlying().(*types.Struct)
+	return st
+}
+
+func c08FieldIndex(n *types.Named, field string) int {
+	st := c08Struct(n)
+	if st == nil {
+		return -1
+	}
+	for i := 0; i < st.NumFields(); i++ {
+		if st.Field(i).Name() == field {
+			return i
+		}
+	}
+	return -1
+}
+
+// c08ConstraintStructPtr: t is *N with N a struct type declared in pkg/search.
+func c08ConstraintStructPtr(t types.Type) *types.Named {
+	pt, ok := t.(*types.Pointer)
+	if !ok {
+		return nil
+	}
+	n, _ := pt.Elem().(*types.Named)
+	if n == nil || c08Struct(n) == nil || n.Obj().Pkg() == nil || n.Obj().Pkg().Path() != modPrefix+c08Pkg {
+		return nil
+	}
+	return n
+}
+
+// c08ZeroK: the constant is the zero value of its type.
+func c08ZeroK(c *ssa.Const) bool {
+	if c.Value == nil {
+		return true
+	}
+	switch c.Value.Kind() {
+	case constant.String:
+		return constant.StringVal(c.Value) == ""
+	case constant.Bool:
+		return !constant.BoolVal(c.Value)
+	case constant.Int, constant.Float:
+		return constant.Sign(c.Value) == 0
+	}
+	return false
+}
+
+func c08ConstEq(a, b *ssa.Const) (eq, ok bool) {
+	if a.Value == nil || b.Value == nil {
+		return a.Value == nil && b.Value == nil, true
+	}
+	if a.Value.Kind() != b.Value.Kind() {
+		return false, false
+	}
+	return constant.Compare(a.Value, token.EQL, b.Value), true
+}
+
+type c08LeafAn struct {
+	p        *Program
+	preds    map[*ssa.Function]bool
+	insts    map[string]c08Inst
+	matchers map[string]*c08Matcher
+	members  map[*ssa.Function]map[*ssa.Parameter]*c08Member
+	cache    map[string]c08FieldRes
+	dyn      map[string]*c08DynRes
+	pure     map[*ssa.Function]int
+}
+
+// ---- part 1: the predicate side
+
+type c08LeafEnv struct {
+	an     *c08LeafAn
+	fn     *ssa.Function
+	pth    c08Path
+	params map[ssa.Value]c08Inst
+	depth  int
+}
+
+func (e *c08LeafEnv) instOf(v ssa.Value) (c08Inst, bool) {
+	v = e.pth.norm(v)
+	if in, ok := e.params[v]; ok {
+		return in, true
+	}
+	base, named, field, ok := c08FieldLoad(v)
+	if !ok {
+		return c08Inst{}, false
+	}
+	bi, ok := e.instOf(base)
+	if !ok {
+		return c08Inst{}, false
+	}
+	st := c08Struct(named)
+	i := c08FieldIndex(named, field)
+	if st == nil || i < 0 {
+		return c08Inst{}, false
+	}
+	en := c08ConstraintStructPtr(st.Field(i).Type())
+	if en == nil {
+		return c08Inst{}, false
+	}
+	in := c08Inst{path: bi.path + "." + field, named: en, from: &c08FieldRef{bi.path, named, field}}
+	e.an.insts[in.path] = in
+	return in, true
+}
+
+func (e *c08LeafEnv) frefOf(v ssa.Value) (c08FieldRef, bool) {
+	v = e.pth.norm(v)
+	base, named, field, ok := c08FieldLoad(v)
+	if !ok {
+		return c08FieldRef{}, false
+	}
+	bi, ok := e.instOf(base)
+	if !ok {
+		return c08FieldRef{}, false
+	}
+	return c08FieldRef{bi.path, named, field}, true
+}
+
+// collect lists every constraint field the value depends on (backward slice
+// over operands, phi edges resolved along the path, composite literals
+// followed into their element stores, analysable helpers followed inside).
+func (e *c08LeafEnv) collect(v ssa.Value) []c08LeafFact {
+	seen := map[ssa.Value]bool{}
+	var out []c08LeafFact
+	var walk func(v ssa.Value, d int)
+	walk = func(v ssa.Value, d int) {
+		if v == nil || d > 24 {
+			return
+		}
+		v = e.pth.norm(v)
+		if v == nil || seen[v] {
+			return
+		}
+		seen[v] = true
+		if ref, ok := e.frefOf(v); ok {
+			out = append(out, c08LeafFact{ref, c08Fact{}})
+		}
+		switch x := v.(type) {
+		case *ssa.Call:
+			if hw, ok := e.helperWorlds(x); ok {
+				for _, w := range hw {
+					for _, f := range w.facts {
+						out = append(out, c08LeafFact{f.ref, c08Fact{}})
+					}
+					for _, f := range w.env.collect(w.ret) {
+						out = append(out, f)
+					}
+				}
+			}
+		case *ssa.Alloc:
+			if refs := x.Referrers(); refs != nil {
+				for _, r := range *refs {
+					var addr ssa.Value
+					switch a := r.(type) {
+					case *ssa.IndexAddr:
+						addr = a
+					case *ssa.FieldAddr:
+						addr = a
+					}
+					if addr == nil || addr.Referrers() == nil {
+						continue
+					}
+					for _, rr := range *addr.Referrers() {
+						if st, ok := rr.(*ssa.Store); ok && st.Addr == addr {
+							walk(st.Val, d+1)
+						}
+					}
+				}
+			}
+		}
+		if in, ok := v.(ssa.Instruction); ok {
+			for _, op := range in.Operands(nil) {
+				if *op != nil {
+					walk(*op, d+1)
+				}
+			}
+		}
+	}
+	walk(v, 0)
+	return out
+}
+
+func c08CmpFact(k *ssa.Const, eq bool) c08Fact {
+	switch {
+	case c08ZeroK(k) && eq:
+		return c08Fact{kind: "zero"}
+	case c08ZeroK(k):
+		return c08Fact{kind: "nonzero"}
+	case eq && k.Value != nil:
+		return c08Fact{kind: "eq", str: k.Value.ExactString()}
+	}
+	return c08Fact{}
+}
+
+// interp turns "cond evaluated to val" into alternative sets of field facts.
+// No alternative = infeasible.
+func (e *c08LeafEnv) interp(cond ssa.Value, val bool) [][]c08LeafFact {
+	cond = e.pth.norm(cond)
+	for {
+		u, ok := cond.(*ssa.UnOp)
+		if !ok || u.Op != token.NOT {
+			break
+		}
+		cond, val = e.pth.norm(u.X), !val
+	}
+	one := func(fs ...c08LeafFact) [][]c08LeafFact { return [][]c08LeafFact{fs} }
+	switch c := cond.(type) {
+	case *ssa.Const:
+		if bv, ok := c08ConstBool(c); ok {
+			if bv != val {
+				return nil
+			}
+			return one()
+		}
+	case *ssa.BinOp:
+		if c.Op != token.EQL && c.Op != token.NEQ {
+			break
+		}
+		for side := 0; side < 2; side++ {
+			x, y := c.X, c.Y
+			if side == 1 {
+				x, y = y, x
+			}
+			k, isConst := e.pth.norm(y).(*ssa.Const)
+			if !isConst {
+				continue
+			}
+			eq := (c.Op == token.EQL) == val
+			if ref, ok := e.frefOf(x); ok {
+				return one(c08LeafFact{ref, c08CmpFact(k, eq)})
+			}
+			if in, ok := e.instOf(x); ok && k.Value == nil {
+				if in.from == nil {
+					return one() // nil check of the receiver itself
+				}
+				return one(c08LeafFact{*in.from, c08CmpFact(k, eq)})
+			}
+			if call, ok := e.pth.norm(x).(*ssa.Call); ok {
+				if hw, ok := e.helperWorlds(call); ok {
+					var out [][]c08LeafFact
+					for _, w := range hw {
+						rv := w.env.pth.norm(w.ret)
+						fs := append([]c08LeafFact(nil), w.facts...)
+						if rc, isC := rv.(*ssa.Const); isC {
+							if same, ok := c08ConstEq(rc, k); ok && same != eq {
+								continue
+							}
+						} else if ref, ok := w.env.frefOf(rv); ok {
+							fs = append(fs, c08LeafFact{ref, c08CmpFact(k, eq)})
+						} else {
+							fs = append(fs, w.env.collect(rv)...)
+						}
+						out = append(out, fs)
+					}
+					return out
+				}
+			}
+		}
+	case *ssa.Call:
+		if f := c.Call.StaticCallee(); f != nil && !c.Call.IsInvoke() {
+			if len(c.Call.Args) == 1 {
+				if ref, ok := e.frefOf(c.Call.Args[0]); ok {
+					return one(c08LeafFact{ref, c08Fact{kind: "call", str: FuncKeyAny(f), val: val}})
+				}
+			}
+			if hw, ok := e.helperWorlds(c); ok {
+				var out [][]c08LeafFact
+				for _, w := range hw {
+					for _, sub := range w.env.interp(w.ret, val) {
+						out = append(out, append(append([]c08LeafFact(nil), w.facts...), sub...))
+					}
+				}
+				return out
+			}
+		}
+	case *ssa.UnOp:
+		if ref, ok := e.frefOf(c); ok {
+			if val {
+				return one(c08LeafFact{ref, c08Fact{kind: "nonzero"}})
+			}
+			return one(c08LeafFact{ref, c08Fact{kind: "zero"}})
+		}
+	}
+	return one(e.collect(cond)...)
+}
+
+type c08Outcome struct {
+	ret *ssa.Return
+	val ssa.Value
+}
+
+func c08Outcomes(paths []c08Path) []c08Outcome {
+	outs := make([]c08Outcome, len(paths))
+	for i, pth := range paths {
+		last := pth[len(pth)-1]
+		if ret, ok := last.Instrs[len(last.Instrs)-1].(*ssa.Return); ok {
+			outs[i].ret = ret
+			if len(ret.Results) == 1 {
+				outs[i].val = pth.norm(ret.Results[0])
+			}
+		}
+	}
+	return outs
+}
+
+// c08Decides: the branch taken at path position `at` matters — some path that
+// shares the prefix and takes the other edge ends in a different return
+// statement or returns a different value.
+func c08Decides(paths []c08Path, outs []c08Outcome, pi, at int) bool {
+	p := paths[pi]
+	for qi, q := range paths {
+		if qi == pi || len(q) <= at+1 || q[at+1] == p[at+1] {
+			continue
+		}
+		same := true
+		for i := 0; i <= at; i++ {
+			if q[i] != p[i] {
+				same = false
+				break
+			}
+		}
+		if same && outs[qi] != outs[pi] {
+			return true
+		}
+	}
+	return false
+}
+
+// pathFacts: the alternative fact sets of the deciding branches of one path.
+func (e *c08LeafEnv) pathFacts(paths []c08Path, outs []c08Outcome, pi int) [][]c08LeafFact {
+	alts := [][]c08LeafFact{nil}
+	for _, br := range e.pth.branches() {
+		if !c08Decides(paths, outs, pi, br.At) {
+			continue
+		}
+		sub := e.interp(br.Cond, br.Val)
+		if len(sub) == 0 {
+			return nil
+		}
+		var next [][]c08LeafFact
+		for _, a := range alts {
+			for _, s := range sub {
+				next = append(next, append(append([]c08LeafFact(nil), a...), s...))
+			}
+		}
+		alts = next
+		if len(alts) > 256 {
+			alts = alts[:256]
+		}
+	}
+	return alts
+}
+
+type c08HelperWorld struct {
+	env   *c08LeafEnv
+	facts []c08LeafFact
+	ret   ssa.Value
+}
+
+// helperWorlds analyses a call to a small helper that receives a constraint
+// struct (e.g. a method on *StringConstraint called from a predicate): one
+// world per acyclic path and fact alternative.
+func (e *c08LeafEnv) helperWorlds(call *ssa.Call) ([]c08HelperWorld, bool) {
+	f := call.Call.StaticCallee()
+	if f == nil || call.Call.IsInvoke() || !InModule(f) || len(f.Blocks) == 0 || e.an.preds[f] || f == e.fn || e.depth >= 3 || len(f.AnonFuncs) > 0 {
+		return nil, false
+	}
+	if f.Signature.Results().Len() != 1 {
+		return nil, false
+	}
+	params := map[ssa.Value]c08Inst{}
+	for i, a := range call.Call.Args {
+		if in, ok := e.instOf(a); ok && i < len(f.Params) {
+			params[f.Params[i]] = in
+		}
+	}
+	if len(params) == 0 {
+		return nil, false
+	}
+	paths, why := c08Paths(f, 400)
+	if why != "" {
+		return nil, false
+	}
+	outs := c08Outcomes(paths)
+	var out []c08HelperWorld
+	for pi, pth := range paths {
+		if outs[pi].ret == nil || len(outs[pi].ret.Results) != 1 {
+			continue
+		}
+		he := &c08LeafEnv{an: e.an, fn: f, pth: pth, params: params, depth: e.depth + 1}
+		for _, alt := range he.pathFacts(paths, outs, pi) {
+			out = append(out, c08HelperWorld{he, alt, outs[pi].ret.Results[0]})
+		}
+	}
+	return out, true
+}
+
+type c08Level struct {
+	inst   c08Inst
+	tested map[string]c08Fact
+}
+
+// worlds: per leaf path, the alternative descriptions of what the restricting
+// return relies on, grouped per constraint struct instance.
+func (an *c08LeafAn) worlds(lp c08LeafPath) []map[string]*c08Level {
+	root := c08Inst{path: "c", named: an.p.NamedType(c08Pkg, "Constraint")}
+	an.insts["c"] = root
+	e := &c08LeafEnv{an: an, fn: lp.fn, pth: lp.paths[lp.idx], params: map[ssa.Value]c08Inst{lp.fn.Params[0]: root}}
+	outs := c08Outcomes(lp.paths)
+	alts := e.pathFacts(lp.paths, outs, lp.idx)
+	// the returned value itself
+	var retAlts [][]c08LeafFact
+	rv := e.pth.norm(lp.ret.Results[0])
+	if _, isConst := rv.(*ssa.Const); isConst {
+		retAlts = [][]c08LeafFact{nil}
+	} else if lp.kind == c08Bool {
+		retAlts = e.interp(rv, true)
+	} else {
+		retAlts = [][]c08LeafFact{e.collect(rv)}
+	}
+	var res []map[string]*c08Level
+	for _, a := range alts {
+	next:
+		for _, b := range retAlts {
+			w := map[string]*c08Level{"c": {inst: root, tested: map[string]c08Fact{}}}
+			for _, f := range append(append([]c08LeafFact(nil), a...), b...) {
+				lv := w[f.ref.inst]
+				if lv == nil {
+					lv = &c08Level{inst: an.insts[f.ref.inst], tested: map[string]c08Fact{}}
+					w[f.ref.inst] = lv
+				}
+				old, had := lv.tested[f.ref.field]
+				switch {
+				case had && ((old.kind == "zero" && (f.fact.kind == "nonzero" || f.fact.kind == "eq")) || (f.fact.kind == "zero" && (old.kind == "nonzero" || old.kind == "eq"))):
+					continue next // contradictory: infeasible combination
+				case !had || f.fact.rank() > old.rank():
+					lv.tested[f.ref.field] = f.fact
+				}
+			}
+			res = append(res, w)
+		}
+	}
+	return res
+}
+
+// ---- part 2: the matcher side
+
+// A c08Member is one function of a matcher family: it receives the constraint
+// struct under analysis as parameter `root`.
+type c08Member struct {
+	an      *c08LeafAn
+	fn      *ssa.Function
+	root    *ssa.Parameter
+	named   *types.Named
+	compile bool // builds a matcher (returns a func value) instead of evaluating one
+	funcs   []*ssa.Function
+	vf      map[ssa.Value][]string
+	escape  string // the root leaves the analysable part of the family
+	callees []c08CalleeSite
+	cxs     map[string]*c08FieldCx
+}
+
+type c08CalleeSite struct {
+	call ssa.Instruction
+	mem  *c08Member
+}
+
+type c08Matcher = c08Member
+
+func c08AllFuncs(fn *ssa.Function) []*ssa.Function {
+	out := []*ssa.Function{fn}
+	for _, a := range fn.AnonFuncs {
+		out = append(out, c08AllFuncs(a)...)
+	}
+	return out
+}
+
+func c08ResultIsFunc(fn *ssa.Function) bool {
+	res := fn.Signature.Results()
+	if res.Len() != 1 {
+		return false
+	}
+	_, ok := res.At(0).Type().Underlying().(*types.Signature)
+	return ok
+}
+
+func c08ResultIsVerdict(fn *ssa.Function) bool {
+	res := fn.Signature.Results()
+	return res.Len() >= 1 && res.Len() <= 2 && c08IsBool(res.At(0).Type())
+}
+
+func (an *c08LeafAn) member(fn *ssa.Function, root *ssa.Parameter) *c08Member {
+	if an.members[fn] == nil {
+		an.members[fn] = map[*ssa.Parameter]*c08Member{}
+	}
+	if m := an.members[fn][root]; m != nil {
+		return m
+	}
+	m := &c08Member{an: an, fn: fn, root: root, named: NamedOf(root.Type()), compile: c08ResultIsFunc(fn), funcs: c08AllFuncs(fn), vf: map[ssa.Value][]string{}, cxs: map[string]*c08FieldCx{}}
+	an.members[fn][root] = m
+	m.scanRoot()
+	return m
+}
+
+func (m *c08Member) isRoot(v ssa.Value) bool { return v != nil && originValue(v) == ssa.Value(m.root) }
+
+// rootField: fa addresses a field of the root.
+func (m *c08Member) rootField(v ssa.Value) (string, bool) {
+	fa, ok := v.(*ssa.FieldAddr)
+	if !ok || !m.isRoot(fa.X) {
+		return "", false
+	}
+	_, _, f, ok := c08FieldAddr(fa)
+	return f, ok
+}
+
+// fieldsOf: the root fields whose value v carries (one, or several when v is the
+// result of a table-driven getter call).
+func (m *c08Member) fieldsOf(v ssa.Value) []string {
+	if v == nil {
+		return nil
+	}
+	if fs, ok := m.vf[v]; ok {
+		return fs
+	}
+	var fs []string
+	switch o := originValue(v).(type) {
+	case *ssa.UnOp:
+		if o.Op == token.MUL {
+			if f, ok := m.rootField(o.X); ok {
+				fs = []string{f}
+			}
+		}
+	case *ssa.Call:
+		if o.Call.StaticCallee() == nil && !o.Call.IsInvoke() {
+			for i, a := range o.Call.Args {
+				if m.isRoot(a) {
+					if dr := m.an.dynTargets(o); dr.why == "" {
+						fs = dr.getterFields(i)
+					}
+				}
+			}
+		}
+	}
+	m.vf[v] = fs
+	return fs
+}
+
+func c08Has(fs []string, f string) bool {
+	for _, x := range fs {
+		if x == f {
+			return true
+		}
+	}
+	return false
+}
+
+// scanRoot classifies every use of the root itself.
+func (m *c08Member) scanRoot() {
+	for _, g := range m.funcs {
+		for _, b := range g.Blocks {
+			for _, in := range b.Instrs {
+				if _, ok := in.(*ssa.DebugRef); ok {
+					continue
+				}
+				for ai, op := range in.Operands(nil) {
+					if *op == nil || !m.isRoot(*op) {
+						continue
+					}
+					switch x := in.(type) {
+					case *ssa.FieldAddr:
+					case *ssa.UnOp:
+						m.escape = "the constraint struct is copied (" + x.String() + ")"
+					case *ssa.BinOp:
+						if x.Op != token.EQL && x.Op != token.NEQ {
+							m.escape = "the constraint pointer is used in " + x.String()
+						}
+					case *ssa.Store:
+						al, isAl := x.Addr.(*ssa.Alloc)
+						if x.Val != *op || !isAl || !plainVariable(al) {
+							m.escape = "the constraint pointer is stored (" + x.String() + ")"
+						}
+					case *ssa.Call:
+						m.scanRootCall(x, ai)
+					default:
+						m.escape = fmt.Sprintf("the constraint pointer flows into %T (%s)", in, in.String())
+					}
+				}
+			}
+		}
+	}
+}
+
+func (m *c08Member) scanRootCall(c *ssa.Call, operandIdx int) {
+	cc := &c.Call
+	if cc.IsInvoke() {
+		m.escape = "the constraint pointer is passed to an interface method (" + c.String() + ")"
+		return
+	}
+	argIdx := -1
+	for i, a := range cc.Args {
+		if m.isRoot(a) {
+			argIdx = i
+		}
+	}
+	if argIdx < 0 {
+		m.escape = "the constraint pointer is the callee of " + c.String()
+		return
+	}
+	if f := cc.StaticCallee(); f != nil {
+		if m.an.pureHelper(f) && len(cc.Args) == 1 {
+			return // a set-test helper: interpreted where its result is branched on
+		}
+		if !InModule(f) || len(f.Blocks) == 0 || argIdx >= len(f.Params) {
+			m.escape = "the constraint pointer is passed to " + FuncKeyAny(f) + ", which has no analysable body"
+			return
+		}
+		sub := m.an.member(f, f.Params[argIdx])
+		for _, cs := range m.callees {
+			if cs.call == ssa.Instruction(c) {
+				return
+			}
+		}
+		m.callees = append(m.callees, c08CalleeSite{c, sub})
+		return
+	}
+	dr := m.an.dynTargets(c)
+	if dr.why != "" {
+		m.escape = "the constraint pointer is passed to a dynamically chosen function (" + c.String() + "): " + dr.why
+		return
+	}
+	if dr.getterFields(argIdx) == nil {
+		m.escape = "the constraint pointer is passed to a dynamically chosen function (" + c.String() + ") whose possible targets are not all plain field getters"
+	}
+	_ = operandIdx
+}
+
+// family: m and every function that (transitively) receives the same struct.
+func (m *c08Member) family() []*c08Member {
+	seen := map[*c08Member]bool{m: true}
+	out := []*c08Member{m}
+	for i := 0; i < len(out); i++ {
+		for _, cs := range out[i].callees {
+			if !seen[cs.mem] {
+				seen[cs.mem] = true
+				out = append(out, cs.mem)
+			}
+		}
+	}
+	return out
+}
+
+// ---- dynamically chosen functions read from a struct field (table-driven matchers)
+
+type c08DynRes struct {
+	why     string
+	targets []*ssa.Function
+}
+
+// getterFields: when every target is a plain getter `return p.X` of its
+// parameter argIdx, the fields X; nil otherwise.
+func (d *c08DynRes) getterFields(argIdx int) []string {
+	var out []string
+	for _, t := range d.targets {
+		f := c08PlainGetter(t, argIdx)
+		if f == "" {
+			return nil
+		}
+		if !c08Has(out, f) {
+			out = append(out, f)
+		}
+	}
+	return out
+}
+
+func c08PlainGetter(t *ssa.Function, argIdx int) string {
+	if len(t.Blocks) != 1 || argIdx >= len(t.Params) || len(t.FreeVars) != 0 {
+		return ""
+	}
+	ins := nonDebug(t.Blocks[0].Instrs)
+	if len(ins) != 3 {
+		return ""
+	}
+	fa, ok1 := ins[0].(*ssa.FieldAddr)
+	ld, ok2 := ins[1].(*ssa.UnOp)
+	rt, ok3 := ins[2].(*ssa.Return)
+	if !ok1 || !ok2 || !ok3 || fa.X != ssa.Value(t.Params[argIdx]) || ld.Op != token.MUL || ld.X != ssa.Value(fa) || len(rt.Results) != 1 || rt.Results[0] != ssa.Value(ld) {
+		return ""
+	}
+	_, _, f, ok := c08FieldAddr(fa)
+	if !ok {
+		return ""
+	}
+	return f
+}
+
+// dynTargets resolves a call of a function value loaded from field k of an
+// unexported struct type N: the possible targets are the function values stored
+// into N.k anywhere in N's package (composite literals are field stores in SSA).
+func (an *c08LeafAn) dynTargets(c *ssa.Call) *c08DynRes {
+	ld, ok := originValue(c.Call.Value).(*ssa.UnOp)
+	if !ok || ld.Op != token.MUL {
+		return &c08DynRes{why: "the called value is not read from a struct field"}
+	}
+	fa, ok := ld.X.(*ssa.FieldAddr)
+	if !ok {
+		return &c08DynRes{why: "the called value is not read from a struct field"}
+	}
+	_, named, field, ok := c08FieldAddr(fa)
+	if !ok || named.Obj().Pkg() == nil || named.Obj().Exported() || !strings.HasPrefix(named.Obj().Pkg().Path(), modPrefix) {
+		return &c08DynRes{why: "the called value is read from a field of a type that other packages can construct"}
+	}
+	key := named.Obj().Pkg().Path() + "." + named.Obj().Name() + "." + field
+	if r := an.dyn[key]; r != nil {
+		return r
+	}
+	res := &c08DynRes{}
+	an.dyn[key] = res
+	rel := strings.TrimPrefix(named.Obj().Pkg().Path(), modPrefix)
+	for _, g := range an.p.FuncsIn(rel) {
+		for _, b := range g.Blocks {
+			for _, in := range b.Instrs {
+				switch x := in.(type) {
+				case *ssa.Store:
+					sfa, ok := x.Addr.(*ssa.FieldAddr)
+					if !ok {
+						continue
+					}
+					_, n2, f2, ok := c08FieldAddr(sfa)
+					if !ok || n2 != named || f2 != field {
+						continue
+					}
+					switch t := originValue(x.Val).(type) {
+					case *ssa.Function:
+						if len(t.Blocks) == 0 {
+							res.why = "a target without body (" + t.String() + ") is stored into " + key
+						}
+						res.targets = append(res.targets, t)
+					case *ssa.MakeClosure:
+						res.targets = append(res.targets, t.Fn.(*ssa.Function))
+					default:
+						res.why = "a value that is not a declared function or literal is stored into " + key
+					}
+				case *ssa.ChangeType:
+					if types.Identical(x.Type(), named) {
+						res.why = "values of another type are converted to " + named.Obj().Name()
+					}
+				case *ssa.Convert:
+					if types.Identical(x.Type(), named) {
+						res.why = "values of another type are converted to " + named.Obj().Name()
+					}
+				}
+			}
+		}
+	}
+	if len(res.targets) == 0 && res.why == "" {
+		res.why = "no function is ever stored into " + key
+	}
+	return res
+}
+
+// ---- set-test helpers (pure boolean functions of the struct's fields)
+
+func c08OnlyPanics(b *ssa.BasicBlock, seen map[*ssa.BasicBlock]bool) bool {
+	if seen[b] {
+		return true
+	}
+	seen[b] = true
+	if len(b.Succs) == 0 {
+		_, isPanic := b.Instrs[len(b.Instrs)-1].(*ssa.Panic)
+		return isPanic
+	}
+	for _, s := range b.Succs {
+		if !c08OnlyPanics(s, seen) {
+			return false
+		}
+	}
+	return true
+}
+
+// pureHelper: a method with the struct as only parameter and one bool result
+// whose body (outside blocks that can only panic) consists of field loads,
+// comparisons and boolean control flow.
+func (an *c08LeafAn) pureHelper(f *ssa.Function) bool {
+	if v, ok := an.pure[f]; ok {
+		return v == 1
+	}
+	an.pure[f] = 2
+	ok := len(f.Params) == 1 && len(f.Blocks) > 0 && len(f.AnonFuncs) == 0 && f.Signature.Results().Len() == 1 && c08IsBool(f.Signature.Results().At(0).Type()) && c08ConstraintStructPtr(f.Params[0].Type()) != nil
+	if ok {
+		if _, why := c08Paths(f, 2000); why != "" {
+			ok = false
+		}
+	}
+	if ok {
+	blocks:
+		for _, b := range f.Blocks {
+			if c08OnlyPanics(b, map[*ssa.BasicBlock]bool{}) {
+				continue
+			}
+			for _, in := range b.Instrs {
+				switch x := in.(type) {
+				case *ssa.FieldAddr:
+					if x.X != ssa.Value(f.Params[0]) {
+						ok = false
+					}
+				case *ssa.UnOp:
+					if x.Op == token.MUL {
+						_, isFA := x.X.(*ssa.FieldAddr)
+						_, isG := x.X.(*ssa.Global)
+						if !isFA && !isG {
+							ok = false
+						}
+					} else if x.Op != token.NOT {
+						ok = false
+					}
+				case *ssa.BinOp, *ssa.Phi, *ssa.If, *ssa.Jump, *ssa.Return, *ssa.DebugRef:
+				default:
+					ok = false
+				}
+				if !ok {
+					break blocks
+				}
+			}
+		}
+	}
+	if ok {
+		an.pure[f] = 1
+	}
+	return ok
+}
+
+func c08HelperFields(f *ssa.Function) []string {
+	var out []string
+	for _, b := range f.Blocks {
+		for _, in := range b.Instrs {
+			if fa, ok := in.(*ssa.FieldAddr); ok && fa.X == ssa.Value(f.Params[0]) {
+				if _, _, n, ok := c08FieldAddr(fa); ok && !c08Has(out, n) {
+					out = append(out, n)
+				}
+			}
+		}
+	}
+	sort.Strings(out)
+	return out
+}
+
+// c08HelperEval evaluates a pure helper under an assignment field -> set?
+// (fields not in the assignment, and conditions on anything else, are unknown:
+// both edges are explored). ok=false when the result is not determined.
+func c08HelperEval(f *ssa.Function, assign map[string]bool) (res, ok bool) {
+	paths, why := c08Paths(f, 2000)
+	if why != "" {
+		return false, false
+	}
+	var eval func(pth c08Path, v ssa.Value) (bool, bool)
+	eval = func(pth c08Path, v ssa.Value) (bool, bool) {
+		v = pth.norm(v)
+		switch x := v.(type) {
+		case *ssa.Const:
+			return c08ConstBool(x)
+		case *ssa.UnOp:
+			if x.Op == token.NOT {
+				r, k := eval(pth, x.X)
+				return !r, k
+			}
+			if base, _, fld, isF := c08FieldLoad(x); isF && base == ssa.Value(f.Params[0]) && c08IsBool(x.Type()) {
+				set, known := assign[fld]
+				return set, known
+			}
+		case *ssa.BinOp:
+			if x.Op != token.EQL && x.Op != token.NEQ {
+				return false, false
+			}
+			for side := 0; side < 2; side++ {
+				a, b := x.X, x.Y
+				if side == 1 {
+					a, b = b, a
+				}
+				k, isK := pth.norm(b).(*ssa.Const)
+				base, _, fld, isF := c08FieldLoad(pth.norm(a))
+				if !isK || !isF || base != ssa.Value(f.Params[0]) || !c08ZeroK(k) {
+					continue
+				}
+				set, known := assign[fld]
+				if !known {
+					return false, false
+				}
+				return set == (x.Op == token.NEQ), true
+			}
+		}
+		return false, false
+	}
+	seenT, seenF := false, false
+	for _, pth := range paths {
+		feasible := true
+		for _, br := range pth.branches() {
+			if r, k := eval(pth, br.Cond); k && r != br.Val {
+				feasible = false
+				break
+			}
+		}
+		if !feasible {
+			continue
+		}
+		last := pth[len(pth)-1]
+		ret, isRet := last.Instrs[len(last.Instrs)-1].(*ssa.Return)
+		if !isRet {
+			continue // panics
+		}
+		r, k := eval(pth, ret.Results[0])
+		if !k {
+			return false, false
+		}
+		if r {
+			seenT = true
+		} else {
+			seenF = true
+		}
+	}
+	if seenT == seenF {
+		return false, false
+	}
+	return seenT, true
+}
+
+// c08HelperPolarity: how does the helper's result react to field F becoming
+// set, everything else equal? "indep" | "up" (false->true only) | "down" | "".
+func c08HelperPolarity(f *ssa.Function, F string, known map[string]bool) string {
+	fields := c08HelperFields(f)
+	if !c08Has(fields, F) {
+		return "indep"
+	}
+	var free []string
+	for _, x := range fields {
+		if _, k := known[x]; !k && x != F {
+			free = append(free, x)
+		}
+	}
+	if len(free) > 10 {
+		return ""
+	}
+	up, down := false, false
+	for mask := 0; mask < 1<<len(free); mask++ {
+		as := map[string]bool{}
+		for k, v := range known {
+			as[k] = v
+		}
+		for i, x := range free {
+			as[x] = mask&(1<<i) != 0
+		}
+		as[F] = false
+		r0, ok0 := c08HelperEval(f, as)
+		as[F] = true
+		r1, ok1 := c08HelperEval(f, as)
+		if !ok0 || !ok1 {
+			return ""
+		}
+		if r1 && !r0 {
+			up = true
+		}
+		if r0 && !r1 {
+			down = true
+		}
+	}
+	switch {
+	case up && down:
+		return ""
+	case up:
+		return "up"
+	case down:
+		return "down"
+	}
+	return "indep"
+}
+
+// ---- one member under one set of facts
+
+// c08ZeroTests: bool methods whose result on the zero value of the receiver
+// type is known. One symbol, one reason.
+var c08ZeroTests = map[string]struct {
+	onZero bool
+	reason string
+}{
+	"time.(Time).IsZero":             {true, "the zero time.Time is the zero time instant"},
+	"pkg/blob.(Ref).Valid":           {false, "the zero blob.Ref has no digest"},
+	"pkg/types.(Time3339).IsAnyZero": {true, "the zero Time3339 is the zero time instant"},
+}
+
+type c08Div struct {
+	B, T, U   *ssa.BasicBlock
+	cond      ssa.Value // the condition tested (the If's, or the value a phi-if block receives)
+	viaHelper bool
+	threaded  bool                     // T or U were reached through a phi-if block: no dominance regions
+	passed    map[*ssa.BasicBlock]bool // phi-if blocks passed through
+	why       string
+}
+
+// c08PhiIf: block b only forwards a boolean computed by its predecessors
+// (`x := a || b; if x {`): phis, and an If on one of them; nothing escapes.
+func c08PhiIf(b *ssa.BasicBlock) *ssa.Phi {
+	ifi := c08LastIf(b)
+	if ifi == nil {
+		return nil
+	}
+	cp, ok := ifi.Cond.(*ssa.Phi)
+	if !ok || cp.Block() != b {
+		return nil
+	}
+	for _, in := range b.Instrs {
+		switch x := in.(type) {
+		case *ssa.Phi:
+			if x.Referrers() != nil {
+				for _, r := range *x.Referrers() {
+					if r.Block() != b {
+						return nil
+					}
+				}
+			}
+		case *ssa.DebugRef, *ssa.If:
+		default:
+			return nil
+		}
+	}
+	return cp
+}
+
+func c08PredEdge(ph *ssa.Phi, from *ssa.BasicBlock) ssa.Value {
+	var v ssa.Value
+	n := 0
+	for i, p := range ph.Block().Preds {
+		if p == from {
+			v = ph.Edges[i]
+			n++
+		}
+	}
+	if n != 1 {
+		return nil
+	}
+	return v
+}
+
+// c08Thread: where control really goes when block `to` is entered from `from`:
+// through phi-if blocks whose condition is a constant on that edge.
+func c08Thread(from, to *ssa.BasicBlock, passed map[*ssa.BasicBlock]bool) *ssa.BasicBlock {
+	for i := 0; i < 8; i++ {
+		ph := c08PhiIf(to)
+		if ph == nil {
+			return to
+		}
+		e := c08PredEdge(ph, from)
+		if e == nil {
+			return to
+		}
+		k, ok := c08ConstBool(e)
+		if !ok {
+			return to
+		}
+		if passed != nil {
+			passed[to] = true
+		}
+		next := to.Succs[1]
+		if k {
+			next = to.Succs[0]
+		}
+		from, to = to, next
+	}
+	return to
+}
+
+// c08Branch2: the two-way decision block b ends in: its own If, or — when b
+// jumps into a phi-if block with a value of its own — that block's If.
+func c08Branch2(b *ssa.BasicBlock, passed map[*ssa.BasicBlock]bool) (cond ssa.Value, s0, s1 *ssa.BasicBlock, ok bool) {
+	if ifi := c08LastIf(b); ifi != nil {
+		if b.Succs[0] == b.Succs[1] {
+			return nil, nil, nil, false
+		}
+		return ifi.Cond, c08Thread(b, b.Succs[0], passed), c08Thread(b, b.Succs[1], passed), true
+	}
+	if len(b.Succs) != 1 {
+		return nil, nil, nil, false
+	}
+	x := b.Succs[0]
+	ph := c08PhiIf(x)
+	if ph == nil {
+		return nil, nil, nil, false
+	}
+	e := c08PredEdge(ph, b)
+	if e == nil {
+		return nil, nil, nil, false
+	}
+	if _, isConst := c08ConstBool(e); isConst {
+		return nil, nil, nil, false
+	}
+	if passed != nil {
+		passed[x] = true
+	}
+	return e, c08Thread(x, x.Succs[0], passed), c08Thread(x, x.Succs[1], passed), true
+}
+
+type c08FieldCx struct {
+	m      *c08Member
+	facts  map[string]c08Fact
+	live   map[*ssa.BasicBlock]bool
+	divs   map[string][]c08Div
+	vonlyC map[string]map[*ssa.BasicBlock]bool
+	zonlyC map[string]map[*ssa.BasicBlock]bool
+}
+
+func c08FactsSig(facts map[string]c08Fact) string {
+	var ks []string
+	for k, f := range facts {
+		if f.kind != "" {
+			ks = append(ks, k+":"+f.kind+":"+f.str+fmt.Sprint(f.val))
+		}
+	}
+	sort.Strings(ks)
+	return strings.Join(ks, ",")
+}
+
+func (m *c08Member) cx(facts map[string]c08Fact) *c08FieldCx {
+	sig := c08FactsSig(facts)
+	if cx := m.cxs[sig]; cx != nil {
+		return cx
+	}
+	cx := &c08FieldCx{m: m, facts: facts, divs: map[string][]c08Div{}, vonlyC: map[string]map[*ssa.BasicBlock]bool{}, zonlyC: map[string]map[*ssa.BasicBlock]bool{}}
+	m.cxs[sig] = cx
+	cx.live = map[*ssa.BasicBlock]bool{}
+	var walk func(b *ssa.BasicBlock)
+	walk = func(b *ssa.BasicBlock) {
+		if cx.live[b] {
+			return
+		}
+		cx.live[b] = true
+		for _, s := range cx.succs(b) {
+			walk(s)
+		}
+	}
+	if len(m.fn.Blocks) > 0 {
+		walk(m.fn.Blocks[0])
+	}
+	return cx
+}
+
+func c08LastIf(b *ssa.BasicBlock) *ssa.If {
+	if len(b.Instrs) == 0 || len(b.Succs) != 2 {
+		return nil
+	}
+	ifi, _ := b.Instrs[len(b.Instrs)-1].(*ssa.If)
+	return ifi
+}
+
+func (cx *c08FieldCx) succs(b *ssa.BasicBlock) []*ssa.BasicBlock {
+	if ifi := c08LastIf(b); ifi != nil {
+		if v, known := cx.evalFacts(ifi.Cond); known {
+			if v {
+				return b.Succs[:1]
+			}
+			return b.Succs[1:2]
+		}
+	}
+	return b.Succs
+}
+
+func (cx *c08FieldCx) knownSet() map[string]bool {
+	out := map[string]bool{}
+	for f, x := range cx.facts {
+		switch x.kind {
+		case "zero":
+			out[f] = false
+		case "nonzero", "eq":
+			out[f] = true
+		}
+	}
+	return out
+}
+
+// evalFacts evaluates a branch condition from what the predicate path knows
+// about the fields it tested.
+func (cx *c08FieldCx) evalFacts(cond ssa.Value) (val, known bool) {
+	switch c := cond.(type) {
+	case *ssa.Const:
+		return c08ConstBool(c)
+	case *ssa.UnOp:
+		if c.Op == token.NOT {
+			v, k := cx.evalFacts(c.X)
+			return !v, k
+		}
+	case *ssa.BinOp:
+		if c.Op != token.EQL && c.Op != token.NEQ {
+			return false, false
+		}
+		for side := 0; side < 2; side++ {
+			x, y := c.X, c.Y
+			if side == 1 {
+				x, y = y, x
+			}
+			k, isK := y.(*ssa.Const)
+			fs := cx.m.fieldsOf(x)
+			if !isK || len(fs) != 1 {
+				continue
+			}
+			ft, has := cx.facts[fs[0]]
+			if !has {
+				return false, false
+			}
+			var eq, ok bool
+			switch ft.kind {
+			case "zero":
+				eq, ok = c08ZeroK(k), true
+			case "nonzero":
+				if c08ZeroK(k) {
+					eq, ok = false, true
+				}
+			case "eq":
+				if c08ZeroK(k) {
+					eq, ok = false, true
+				} else if k.Value != nil {
+					eq, ok = k.Value.ExactString() == ft.str, true
+				}
+			}
+			if !ok {
+				return false, false
+			}
+			return eq == (c.Op == token.EQL), true
+		}
+		return false, false
+	case *ssa.Call:
+		f := c.Call.StaticCallee()
+		if f == nil || c.Call.IsInvoke() || len(c.Call.Args) != 1 {
+			return false, false
+		}
+		if cx.m.isRoot(c.Call.Args[0]) && cx.m.an.pureHelper(f) {
+			return c08HelperEval(f, cx.knownSet())
+		}
+		fs := cx.m.fieldsOf(c.Call.Args[0])
+		if len(fs) != 1 {
+			return false, false
+		}
+		ft, has := cx.facts[fs[0]]
+		if !has {
+			return false, false
+		}
+		key := FuncKeyAny(f)
+		if ft.kind == "call" && ft.str == key {
+			return ft.val, true
+		}
+		if zt, ok := c08ZeroTests[key]; ok && ft.kind == "zero" {
+			return zt.onZero, true
+		}
+		return false, false
+	}
+	if fs := cx.m.fieldsOf(cond); len(fs) == 1 && c08IsBool(cond.Type()) {
+		switch cx.facts[fs[0]].kind {
+		case "zero":
+			return false, true
+		case "nonzero":
+			return true, true
+		}
+	}
+	return false, false
+}
+
+// zeroEval: the value of a test condition when field F holds its zero value
+// (all other inputs of the condition must be constants). ok=false when the
+// condition is not such a test of F.
+func (cx *c08FieldCx) zeroEval(F string, v ssa.Value) (val, ok bool) {
+	switch c := v.(type) {
+	case *ssa.UnOp:
+		if c.Op == token.NOT {
+			r, k := cx.zeroEval(F, c.X)
+			return !r, k
+		}
+	case *ssa.BinOp:
+		for side := 0; side < 2; side++ {
+			x, y := c.X, c.Y
+			if side == 1 {
+				x, y = y, x
+			}
+			k, isK := y.(*ssa.Const)
+			if !isK || !c08Has(cx.m.fieldsOf(x), F) {
+				continue
+			}
+			switch c.Op {
+			case token.EQL:
+				return c08ZeroK(k), true
+			case token.NEQ:
+				return !c08ZeroK(k), true
+			}
+			if k.Value != nil && k.Value.Kind() == constant.Int {
+				l, r := int64(0), k.Int64()
+				if side == 1 {
+					l, r = r, l
+				}
+				return c08Cmp(c.Op, l, r)
+			}
+		}
+		return false, false
+	case *ssa.Call:
+		f := c.Call.StaticCallee()
+		if f != nil && !c.Call.IsInvoke() && len(c.Call.Args) == 1 && c08Has(cx.m.fieldsOf(c.Call.Args[0]), F) {
+			if zt, ok := c08ZeroTests[FuncKeyAny(f)]; ok {
+				return zt.onZero, true
+			}
+		}
+		return false, false
+	}
+	if c08Has(cx.m.fieldsOf(v), F) && c08IsBool(v.Type()) {
+		return false, true
+	}
+	return false, false
+}
+
+// exactTest: cond is equivalent to "field G is (not) its zero value":
+// condWhenZero is cond's value when G is zero, and cond has the other value
+// whenever G is not zero.
+func (cx *c08FieldCx) exactTest(cond ssa.Value) (G string, condWhenZero, ok bool) {
+	switch c := cond.(type) {
+	case *ssa.UnOp:
+		if c.Op == token.NOT {
+			g, z, k := cx.exactTest(c.X)
+			return g, !z, k
+		}
+	case *ssa.BinOp:
+		if c.Op != token.EQL && c.Op != token.NEQ {
+			return "", false, false
+		}
+		for side := 0; side < 2; side++ {
+			x, y := c.X, c.Y
+			if side == 1 {
+				x, y = y, x
+			}
+			k, isK := y.(*ssa.Const)
+			fs := cx.m.fieldsOf(x)
+			if isK && len(fs) == 1 && c08ZeroK(k) {
+				return fs[0], c.Op == token.EQL, true
+			}
+		}
+		return "", false, false
+	}
+	if fs := cx.m.fieldsOf(cond); len(fs) == 1 && c08IsBool(cond.Type()) {
+		return fs[0], false, true
+	}
+	return "", false, false
+}
+
+// helperTest: cond is (a negation of) a call of a pure set-test helper on the root.
+func (cx *c08FieldCx) helperTest(cond ssa.Value) (f *ssa.Function, neg, ok bool) {
+	for {
+		u, isU := cond.(*ssa.UnOp)
+		if !isU || u.Op != token.NOT {
+			break
+		}
+		cond, neg = u.X, !neg
+	}
+	c, isC := cond.(*ssa.Call)
+	if !isC || c.Call.IsInvoke() || len(c.Call.Args) != 1 || !cx.m.isRoot(c.Call.Args[0]) {
+		return nil, false, false
+	}
+	f = c.Call.StaticCallee()
+	if f == nil || !cx.m.an.pureHelper(f) {
+		return nil, false, false
+	}
+	return f, neg, true
+}
+
+// tests: the branches of the member's own body whose outcome depends on F
+// being set.
+func (cx *c08FieldCx) tests(F string) []c08Div {
+	if d, ok := cx.divs[F]; ok {
+		return d
+	}
+	var out []c08Div
+	for _, b := range cx.m.fn.Blocks {
+		if !cx.live[b] || (c08LastIf(b) != nil && len(cx.succs(b)) != 2) {
+			continue
+		}
+		passed := map[*ssa.BasicBlock]bool{}
+		cond, s0, s1, ok := c08Branch2(b, passed)
+		if !ok {
+			continue
+		}
+		mk := func(t, u *ssa.BasicBlock, viaHelper bool) c08Div {
+			return c08Div{B: b, T: t, U: u, cond: cond, viaHelper: viaHelper, passed: passed, threaded: len(passed) > 0}
+		}
+		if z, ok := cx.zeroEval(F, cond); ok {
+			if z {
+				out = append(out, mk(s1, s0, false))
+			} else {
+				out = append(out, mk(s0, s1, false))
+			}
+			continue
+		}
+		if h, neg, ok := cx.helperTest(cond); ok {
+			switch c08HelperPolarity(h, F, cx.knownSet()) {
+			case "indep":
+			case "up":
+				if neg {
+					out = append(out, mk(s1, s0, true))
+				} else {
+					out = append(out, mk(s0, s1, true))
+				}
+			case "down":
+				if neg {
+					out = append(out, mk(s0, s1, true))
+				} else {
+					out = append(out, mk(s1, s0, true))
+				}
+			default:
+				out = append(out, c08Div{B: b, why: "the result of " + FuncKey(h) + " does not react monotonically to " + F + " being set"})
+			}
+		}
+	}
+	cx.divs[F] = out
+	return out
+}
+
+func c08DomRegion(entry, from *ssa.BasicBlock) map[*ssa.BasicBlock]bool {
+	for _, p := range entry.Preds {
+		if p != from && !entry.Dominates(p) {
+			return nil
+		}
+	}
+	out := map[*ssa.BasicBlock]bool{}
+	for _, b := range entry.Parent().Blocks {
+		if entry.Dominates(b) {
+			out[b] = true
+		}
+	}
+	return out
+}
+
+// vonly: blocks that execute only when F is set (dominated by the set-edge of
+// a direct test of F).
+func (cx *c08FieldCx) vonly(F string) map[*ssa.BasicBlock]bool {
+	if r, ok := cx.vonlyC[F]; ok {
+		return r
+	}
+	out := map[*ssa.BasicBlock]bool{}
+	zout := map[*ssa.BasicBlock]bool{}
+	cx.vonlyC[F], cx.zonlyC[F] = out, zout
+	for _, d := range cx.tests(F) {
+		if d.why != "" || d.viaHelper || d.threaded {
+			continue
+		}
+		for b := range c08DomRegion(d.T, d.B) {
+			out[b] = true
+		}
+		if G, _, ok := cx.exactTest(d.cond); ok && G == F {
+			for b := range c08DomRegion(d.U, d.B) {
+				zout[b] = true
+			}
+		}
+	}
+	return out
+}
+
+func (cx *c08FieldCx) zonly(F string) map[*ssa.BasicBlock]bool {
+	cx.vonly(F)
+	return cx.zonlyC[F]
+}
+
+// guarded: instruction `in` (of the member or one of its literals) runs only
+// when F is set, or not at all under the predicate's facts.
+func (cx *c08FieldCx) guarded(F string, in ssa.Instruction) bool {
+	g := in.Parent()
+	if g == cx.m.fn {
+		return !cx.live[in.Block()] || cx.vonly(F)[in.Block()]
+	}
+	par := g.Parent()
+	if par == nil {
+		return false
+	}
+	sites := 0
+	for _, b := range par.Blocks {
+		for _, pin := range b.Instrs {
+			if mc, ok := pin.(*ssa.MakeClosure); ok && mc.Fn == ssa.Value(g) {
+				sites++
+				if !cx.guarded(F, mc) {
+					return false
+				}
+			}
+		}
+	}
+	return true
+}
+
+type c08ValueUse struct {
+	in ssa.Instruction
+	op ssa.Value
+}
+
+// valueUses: every instruction that consumes F's value (or address) other than
+// as an interpreted test.
+func (cx *c08FieldCx) valueUses(F string) []c08ValueUse {
+	var out []c08ValueUse
+	isTestChain := func(v ssa.Value) bool {
+		var chk func(v ssa.Value, d int) bool
+		chk = func(v ssa.Value, d int) bool {
+			refs := v.Referrers()
+			if refs == nil || d > 4 {
+				return false
+			}
+			for _, r := range *refs {
+				switch x := r.(type) {
+				case *ssa.If, *ssa.DebugRef:
+				case *ssa.UnOp:
+					if x.Op != token.NOT || !chk(x, d+1) {
+						return false
+					}
+				case *ssa.Phi:
+					if c08PhiIf(x.Block()) != x {
+						return false
+					}
+				default:
+					return false
+				}
+			}
+			return true
+		}
+		if _, ok := cx.zeroEval(F, v); !ok {
+			return false
+		}
+		return v.Parent() == cx.m.fn && chk(v, 0)
+	}
+	for _, g := range cx.m.funcs {
+		for _, b := range g.Blocks {
+			if g == cx.m.fn && !cx.live[b] {
+				continue
+			}
+			for _, in := range b.Instrs {
+				if _, ok := in.(*ssa.DebugRef); ok {
+					continue
+				}
+				if fa, ok := in.(*ssa.FieldAddr); ok {
+					if f, isR := cx.m.rootField(fa); isR && f == F && fa.Referrers() != nil {
+						for _, r := range *fa.Referrers() {
+							if u, isLoad := r.(*ssa.UnOp); isLoad && u.Op == token.MUL {
+								continue
+							}
+							if _, isDbg := r.(*ssa.DebugRef); isDbg {
+								continue
+							}
+							out = append(out, c08ValueUse{r, fa})
+						}
+					}
+					continue
+				}
+				for _, op := range in.Operands(nil) {
+					if *op == nil || !c08Has(cx.m.fieldsOf(*op), F) {
+						continue
+					}
+					switch x := in.(type) {
+					case *ssa.If:
+						if g == cx.m.fn {
+							continue
+						}
+					case *ssa.Store:
+						if al, isAl := x.Addr.(*ssa.Alloc); isAl && x.Val == *op && plainVariable(al) {
+							continue
+						}
+					case *ssa.UnOp:
+						if x.Op == token.MUL {
+							continue // the load of a cell, not a use of its content
+						}
+					}
+					if v, isV := in.(ssa.Value); isV && isTestChain(v) {
+						continue
+					}
+					out = append(out, c08ValueUse{in, *op})
+					break
+				}
+			}
+		}
+	}
+	return out
+}
+
+// ---- the region check of one test of F
+
+func (cx *c08FieldCx) reach(start, stop *ssa.BasicBlock) (set map[*ssa.BasicBlock]bool, hitStop bool) {
+	set = map[*ssa.BasicBlock]bool{}
+	var walk func(b *ssa.BasicBlock)
+	walk = func(b *ssa.BasicBlock) {
+		if b == stop {
+			hitStop = true
+			return
+		}
+		if set[b] {
+			return
+		}
+		set[b] = true
+		for _, s := range cx.succs(b) {
+			walk(s)
+		}
+	}
+	walk(start)
+	return
+}
+
+func (cx *c08FieldCx) verdictIdx() (boolIdx, errIdx int) {
+	boolIdx, errIdx = -1, -1
+	res := cx.m.fn.Signature.Results()
+	for i := 0; i < res.Len(); i++ {
+		switch {
+		case boolIdx < 0 && c08IsBool(res.At(i).Type()):
+			boolIdx = i
+		case isErrorType(res.At(i).Type()):
+			errIdx = i
+		}
+	}
+	return
+}
+
+// harmless: leaving the function through block b cannot report a match:
+// panic, `return false, …`, or `return …, err` with err known non-nil.
+func (cx *c08FieldCx) harmless(b *ssa.BasicBlock) bool {
+	last := b.Instrs[len(b.Instrs)-1]
+	if _, ok := last.(*ssa.Panic); ok {
+		return true
+	}
+	ret, ok := last.(*ssa.Return)
+	if !ok || cx.m.compile {
+		return false
+	}
+	bi, ei := cx.verdictIdx()
+	if bi < 0 || bi >= len(ret.Results) {
+		return false
+	}
+	bv := ret.Results[bi]
+	if c, isC := c08ConstBool(bv); isC {
+		return !c
+	}
+	var ev ssa.Value
+	if ei >= 0 && ei < len(ret.Results) {
+		ev = ret.Results[ei]
+	}
+	// strict identity (no phi leniency): the very value returned was tested
+	same := func(a, b ssa.Value) bool {
+		oa, ob := originValue(a), originValue(b)
+		_, pa := oa.(*ssa.Phi)
+		_, pb := ob.(*ssa.Phi)
+		return oa == ob && !pa && !pb
+	}
+	says := func(cond ssa.Value, val bool) bool {
+		for {
+			u, isU := cond.(*ssa.UnOp)
+			if !isU || u.Op != token.NOT {
+				break
+			}
+			cond, val = u.X, !val
+		}
+		if !val && same(cond, bv) {
+			return true
+		}
+		if bo, isB := cond.(*ssa.BinOp); isB && ev != nil && (bo.Op == token.EQL || bo.Op == token.NEQ) {
+			var other ssa.Value
+			switch {
+			case IsNilConst(bo.Y):
+				other = bo.X
+			case IsNilConst(bo.X):
+				other = bo.Y
+			}
+			if other != nil && same(other, ev) && (bo.Op == token.NEQ) == val {
+				return true
+			}
+		}
+		return false
+	}
+	known := func(x *ssa.BasicBlock) bool {
+		for _, f := range FactsAt(x) {
+			if says(f.Cond, f.Val) {
+				return true
+			}
+		}
+		return false
+	}
+	if known(b) {
+		return true
+	}
+	if _, isPhi := bv.(*ssa.Phi); isPhi || len(b.Preds) == 0 {
+		return false
+	}
+	for _, p := range b.Preds {
+		if !cx.live[p] {
+			continue
+		}
+		if known(p) {
+			continue
+		}
+		ifi := c08LastIf(p)
+		if ifi == nil || p.Succs[0] == p.Succs[1] || !says(ifi.Cond, p.Succs[0] == b) {
+			return false
+		}
+	}
+	return true
+}
+
+func (cx *c08FieldCx) returnsTrue(b *ssa.BasicBlock) bool {
+	ret, ok := b.Instrs[len(b.Instrs)-1].(*ssa.Return)
+	if !ok || cx.m.compile {
+		return false
+	}
+	bi, _ := cx.verdictIdx()
+	if bi < 0 || bi >= len(ret.Results) {
+		return false
+	}
+	c, isC := c08ConstBool(ret.Results[bi])
+	return isC && c
+}
+
+func c08AllExits(set map[*ssa.BasicBlock]bool, pred func(*ssa.BasicBlock) bool) (all bool, n int) {
+	all = true
+	for b := range set {
+		if len(b.Succs) == 0 {
+			n++
+			if !pred(b) {
+				all = false
+			}
+		}
+	}
+	return
+}
+
+// pureStep: block b only evaluates a condition (no calls with effects, no
+// stores, nothing it defines is used elsewhere) and branches to T or to `next`.
+func (cx *c08FieldCx) pureStep(b, T *ssa.BasicBlock, passed map[*ssa.BasicBlock]bool) (next *ssa.BasicBlock, cond ssa.Value, condToNext bool) {
+	if b == T || len(b.Preds) != 1 {
+		return nil, nil, false
+	}
+	local := map[*ssa.BasicBlock]bool{}
+	c, s0, s1, ok := c08Branch2(b, local)
+	if !ok {
+		return nil, nil, false
+	}
+	switch {
+	case s0 == T && s1 != T:
+		next, condToNext = s1, false
+	case s1 == T && s0 != T:
+		next, condToNext = s0, true
+	default:
+		return nil, nil, false
+	}
+	for _, in := range b.Instrs {
+		switch x := in.(type) {
+		case *ssa.FieldAddr, *ssa.BinOp, *ssa.DebugRef, *ssa.If, *ssa.Jump:
+		case *ssa.UnOp:
+		case *ssa.Call:
+			f := x.Call.StaticCallee()
+			if f == nil {
+				return nil, nil, false
+			}
+			if _, ok := c08ZeroTests[FuncKeyAny(f)]; !ok {
+				return nil, nil, false
+			}
+		default:
+			return nil, nil, false
+		}
+		if v, ok := in.(ssa.Value); ok && v.Referrers() != nil {
+			for _, r := range *v.Referrers() {
+				if r.Block() != b && !local[r.Block()] {
+					return nil, nil, false
+				}
+			}
+		}
+	}
+	for x := range local {
+		passed[x] = true
+	}
+	return next, c, condToNext
+}
+
+func c08AddrBase(v ssa.Value) ssa.Value {
+	for i := 0; i < 8; i++ {
+		switch x := v.(type) {
+		case *ssa.FieldAddr:
+			v = x.X
+		case *ssa.IndexAddr:
+			v = x.X
+		default:
+			return v
+		}
+	}
+	return v
+}
+
+// c08RefBlocks: the blocks of every instruction that touches the variable
+// (through field/element addresses and captures).
+func c08RefBlocks(v ssa.Value, out map[*ssa.BasicBlock]bool, depth int) (escapes bool) {
+	refs := v.Referrers()
+	if refs == nil || depth > 6 {
+		return false
+	}
+	for _, r := range *refs {
+		switch x := r.(type) {
+		case *ssa.DebugRef:
+			continue
+		case *ssa.FieldAddr:
+			if c08RefBlocks(x, out, depth+1) {
+				escapes = true
+			}
+		case *ssa.IndexAddr:
+			if c08RefBlocks(x, out, depth+1) {
+				escapes = true
+			}
+		case *ssa.MakeClosure:
+			escapes = true
+		}
+		out[r.Block()] = true
+	}
+	return escapes
+}
+
+// isAdder: a literal `func(fn F)` of a matcher builder that only stores its
+// argument (into captured variables), on every path.
+func (an *c08LeafAn) isAdder(g *ssa.Function) bool {
+	if len(g.Params) != 1 || g.Signature.Results().Len() != 0 {
+		return false
+	}
+	if _, ok := g.Params[0].Type().Underlying().(*types.Signature); !ok {
+		return false
+	}
+	refs := g.Params[0].Referrers()
+	if refs == nil {
+		return false
+	}
+	stores := map[*ssa.BasicBlock]bool{}
+	for _, r := range *refs {
+		switch x := r.(type) {
+		case *ssa.DebugRef:
+		case *ssa.Store:
+			if x.Val != ssa.Value(g.Params[0]) {
+				return false
+			}
+			stores[x.Block()] = true
+		default:
+			return false
+		}
+	}
+	paths, why := c08Paths(g, 200)
+	if why != "" {
+		return false
+	}
+	for _, pth := range paths {
+		has := false
+		for _, b := range pth {
+			if stores[b] {
+				has = true
+			}
+		}
+		if !has {
+			return false
+		}
+	}
+	return true
+}
+
+type c08RegionRes struct {
+	st     string // "ok" | "modal" | "und"
+	detail string
+}
+
+// region decides whether the branch d.B on field F is narrowing: compared with
+// the run in which F is unset (which leaves d.B through d.U), the run in which
+// F is set (d.T) either cannot report a match or continues in the same code
+// with the same state.
+func (cx *c08FieldCx) region(F string, d c08Div) c08RegionRes {
+	at := fmt.Sprintf("test of %s in block %d of %s", F, d.B.Index, cx.m.fn.Name())
+	und := func(f string, a ...any) c08RegionRes { return c08RegionRes{"und", at + ": " + fmt.Sprintf(f, a...)} }
+	modal := func(f string, a ...any) c08RegionRes { return c08RegionRes{"modal", at + ": " + fmt.Sprintf(f, a...)} }
+	// scenario facts: what both runs share when they separate at d.B and the
+	// F-unset run walks a chain of pure conditions past d.T
+	scen := map[string]string{}
+	addScen := func(cond ssa.Value, val bool) {
+		if G, z, ok := cx.exactTest(cond); ok && G != F {
+			if val == z {
+				scen[G] = "zero"
+			} else {
+				scen[G] = "nonzero"
+			}
+		}
+	}
+	for _, f := range FactsAt(d.B) {
+		addScen(f.Cond, f.Val)
+	}
+	U := d.U
+	chain := map[*ssa.BasicBlock]bool{}
+	for x := range d.passed {
+		chain[x] = true
+	}
+	for i := 0; i < 16; i++ {
+		next, cond, toNext := cx.pureStep(U, d.T, chain)
+		if next == nil {
+			break
+		}
+		addScen(cond, toNext)
+		chain[U] = true
+		U = next
+	}
+	if U == d.T {
+		return c08RegionRes{"ok", "both edges lead to the same block"}
+	}
+	alwaysTrueU := func() bool {
+		ru, _ := cx.reach(U, nil)
+		all, n := c08AllExits(ru, cx.returnsTrue)
+		return all && n > 0
+	}
+	TR, oneSided := cx.reach(d.T, U)
+	var UR map[*ssa.BasicBlock]bool
+	J := U
+	if !oneSided {
+		reachU, _ := cx.reach(U, nil)
+		common := map[*ssa.BasicBlock]bool{}
+		for b := range TR {
+			if reachU[b] {
+				common[b] = true
+			}
+		}
+		if len(common) == 0 {
+			if allT, _ := c08AllExits(TR, cx.harmless); allT {
+				return c08RegionRes{"ok", "the " + F + "-set side can only reject"}
+			}
+			if cx.m.compile {
+				return und("the %s-set side of a matcher builder returns on its own", F)
+			}
+			if alwaysTrueU() {
+				return c08RegionRes{"ok", "the " + F + "-unset side always matches"}
+			}
+			return modal("with %s set the matcher returns a verdict of its own instead of running the tests of the %s-unset side (the two sides never rejoin)", F, F)
+		}
+		var entries []*ssa.BasicBlock
+		for b := range common {
+			for _, p := range b.Preds {
+				if !common[p] && (TR[p] || reachU[p] || p == d.B) && cx.live[p] {
+					entries = append(entries, b)
+					break
+				}
+			}
+		}
+		if len(entries) != 1 {
+			return und("the two sides rejoin at %d different blocks", len(entries))
+		}
+		J = entries[0]
+		UR = map[*ssa.BasicBlock]bool{}
+		for b := range reachU {
+			if !common[b] {
+				UR[b] = true
+			}
+		}
+		for b := range common {
+			delete(TR, b)
+		}
+	}
+	// exits
+	if allT, _ := c08AllExits(TR, cx.harmless); !allT {
+		if cx.m.compile {
+			return und("the %s-set side of a matcher builder returns on its own", F)
+		}
+		if !alwaysTrueU() {
+			return modal("with %s set the matcher can return a verdict of its own (a return that is not `false`/an error) that replaces the tests the %s-unset side goes on to perform", F, F)
+		}
+	}
+	for b := range UR {
+		if len(b.Succs) == 0 && !cx.returnsTrue(b) {
+			if cx.harmless(b) {
+				return modal("the %s-unset side performs a test (block %d can reject) that the %s-set side skips", F, b.Index, F)
+			}
+			return modal("the %s-unset side returns a verdict of its own in block %d", F, b.Index)
+		}
+	}
+	// state
+	dead := func(b *ssa.BasicBlock) bool {
+		if !cx.live[b] {
+			return true
+		}
+		for G, z := range scen {
+			if z == "zero" && cx.vonly(G)[b] {
+				return true
+			}
+			if z == "nonzero" && cx.zonly(G)[b] {
+				return true
+			}
+		}
+		return false
+	}
+	fullT, _ := cx.reach(d.T, nil)
+	for side, reg := range []map[*ssa.BasicBlock]bool{TR, UR} {
+		sideName := F + "-set"
+		if side == 1 {
+			sideName = F + "-unset"
+		}
+		inert := func(b *ssa.BasicBlock) bool {
+			return reg[b] || dead(b) || (side == 0 && cx.vonly(F)[b]) || !fullT[b] && !reg[b] && side == 0
+		}
+		for b := range reg {
+			for _, in := range b.Instrs {
+				switch x := in.(type) {
+				case *ssa.Go, *ssa.Defer:
+					return und("the %s side starts a goroutine or defers a call", sideName)
+				case *ssa.Call:
+					callee := originValue(x.Call.Value)
+					if mc, ok := callee.(*ssa.MakeClosure); ok && !x.Call.IsInvoke() {
+						if !(cx.m.compile && cx.m.an.isAdder(mc.Fn.(*ssa.Function))) {
+							return und("the %s side calls the local literal %s, which may assign variables of %s", sideName, mc.Fn.Name(), cx.m.fn.Name())
+						}
+					}
+					for _, a := range x.Call.Args {
+						if al, ok := c08AddrBase(a).(*ssa.Alloc); ok && !reg[al.Block()] && al.Parent() == cx.m.fn {
+							return und("the %s side passes the address of local variable %s to a call", sideName, al.Comment)
+						}
+					}
+				case *ssa.Store:
+					base := c08AddrBase(x.Addr)
+					if cx.m.isRoot(base) {
+						return und("the %s side assigns a field of the constraint", sideName)
+					}
+					if al, ok := base.(*ssa.Alloc); ok {
+						blocks := map[*ssa.BasicBlock]bool{}
+						if c08RefBlocks(al, blocks, 0) {
+							return und("the %s side assigns variable %s, which is captured by a literal", sideName, al.Comment)
+						}
+						for rb := range blocks {
+							if rb.Parent() == cx.m.fn && !inert(rb) {
+								return und("the %s side assigns local variable %s, which block %d reads outside the guarded region", sideName, al.Comment, rb.Index)
+							}
+						}
+					}
+				case *ssa.MapUpdate:
+					if mk, ok := originValue(x.Map).(*ssa.MakeMap); ok && mk.Parent() == cx.m.fn && mk.Referrers() != nil {
+						for _, r := range *mk.Referrers() {
+							if !inert(r.Block()) {
+								return und("the %s side updates the local map %s, which is used outside the guarded region", sideName, mk.Name())
+							}
+						}
+					}
+				}
+				v, isV := in.(ssa.Value)
+				if !isV || v.Referrers() == nil {
+					continue
+				}
+				for _, r := range *v.Referrers() {
+					rb := r.Block()
+					if rb == nil || reg[rb] {
+						continue
+					}
+					if ph, isPhi := r.(*ssa.Phi); isPhi && rb == J {
+						_ = ph
+						continue // judged below
+					}
+					if _, isDbg := r.(*ssa.DebugRef); isDbg {
+						continue
+					}
+					if side == 0 && cx.vonly(F)[rb] || dead(rb) {
+						continue
+					}
+					return und("a value computed on the %s side (%s) is used in block %d outside the guarded region", sideName, v.Name(), rb.Index)
+				}
+			}
+		}
+	}
+	// values that differ at the join depending on the side
+	if J != nil && cx.live[J] {
+		for _, in := range J.Instrs {
+			ph, ok := in.(*ssa.Phi)
+			if !ok {
+				break
+			}
+			var vals []ssa.Value
+			for i, p := range J.Preds {
+				if !cx.live[p] {
+					continue
+				}
+				related := TR[p] || UR[p] || chain[p] || p == d.B
+				if !related {
+					continue
+				}
+				e := ph.Edges[i]
+				dup := false
+				for _, o := range vals {
+					if o == e {
+						dup = true
+					} else if a, isA := o.(*ssa.Const); isA {
+						if b, isB := e.(*ssa.Const); isB {
+							if same, ok := c08ConstEq(a, b); ok && same {
+								dup = true
+							}
+						}
+					}
+				}
+				if !dup {
+					vals = append(vals, e)
+				}
+			}
+			if len(vals) < 2 || ph.Referrers() == nil {
+				continue
+			}
+			for _, r := range *ph.Referrers() {
+				if _, isDbg := r.(*ssa.DebugRef); isDbg {
+					continue
+				}
+				rb := r.Block()
+				if cx.vonly(F)[rb] || dead(rb) {
+					continue
+				}
+				name := ph.Comment
+				if name == "" {
+					name = ph.Name()
+				}
+				return modal("%s being set changes the value of `%s` (phi in block %d), which the code both runs share uses afterwards (block %d: %s) — the later comparison is replaced, not narrowed", F, name, J.Index, rb.Index, r.String())
+			}
+		}
+	}
+	return c08RegionRes{"ok", "narrowing"}
+}
+
+// ---- one field against one matcher family
+
+type c08FieldRes struct {
+	st     string // "unread" | "ok" | "exception" | "modal" | "und"
+	detail string
+	site   token.Pos
+}
+
+// c08LeafParamFields: fields that the matcher hands on as a parameter of its
+// look-ups (so they are neither narrowing nor modal) and that a predicate may
+// nevertheless ignore. One (predicate, field) + one reason, re-checked
+// structurally by check.
+var c08LeafParamFields = map[string]struct {
+	typ    string
+	reason string
+}{
+	"pkg/search.(*Constraint).matchesPermanodeTypes|PermanodeConstraint.At": {"time.Time", "At only selects the time at which attribute values are looked up; the by-node-type source enumerates every permanode that EVER had the type (Corpus.permanodesSetByNodeType is add-only, see the #add-only row), so it is a superset at every At"},
+}
+
+func (an *c08LeafAn) checkField(top *c08Member, facts map[string]c08Fact, F string, exception string) c08FieldRes {
+	key := FuncKey(top.fn) + "|" + F + "|" + exception + "|" + c08FactsSig(facts)
+	if r, ok := an.cache[key]; ok {
+		return r
+	}
+	res := c08FieldRes{st: "unread", site: top.fn.Pos()}
+	worse := func(st, detail string, site token.Pos) {
+		rank := map[string]int{"unread": 0, "ok": 1, "exception": 2, "und": 3, "modal": 4}
+		if rank[st] > rank[res.st] {
+			res = c08FieldRes{st, detail, site}
+		} else if rank[st] == rank[res.st] && st != "ok" && st != "unread" && !strings.Contains(res.detail, detail) {
+			res.detail += "; " + detail
+		}
+	}
+	nTests, nUses := 0, 0
+	seen := map[*c08Member]bool{}
+	var visit func(m *c08Member)
+	visit = func(m *c08Member) {
+		if seen[m] {
+			return
+		}
+		seen[m] = true
+		cx := m.cx(facts)
+		if m.escape != "" {
+			worse("und", FuncKey(m.fn)+": "+m.escape+"; which fields it reads there is unknown", m.fn.Pos())
+		}
+		for _, d := range cx.tests(F) {
+			nTests++
+			site := m.fn.Pos()
+			if d.cond != nil && d.cond.Pos() != token.NoPos {
+				site = d.cond.Pos()
+			} else if x := d.B.Instrs[len(d.B.Instrs)-1].Pos(); x != token.NoPos {
+				site = x
+			}
+			if d.why != "" {
+				worse("und", d.why, site)
+				continue
+			}
+			rr := cx.region(F, d)
+			switch rr.st {
+			case "ok":
+				worse("ok", "", site)
+			default:
+				worse(rr.st, rr.detail, site)
+			}
+		}
+		for _, u := range cx.valueUses(F) {
+			if cx.guarded(F, u.in) {
+				nUses++
+				worse("ok", "", u.in.Pos())
+				continue
+			}
+			if exception != "" {
+				if c, ok := u.in.(*ssa.Call); ok {
+					isArg := false
+					for _, a := range c.Call.Args {
+						if a == u.op {
+							isArg = true
+						}
+					}
+					if isArg && u.op.Type().String() == exception {
+						worse("exception", "", u.in.Pos())
+						continue
+					}
+				}
+			}
+			worse("und", fmt.Sprintf("%s: %s is used as a parameter (%s) outside the region guarded by its own set-test: it is neither a narrowing nor a recognisable modal field", FuncKey(u.in.Parent()), F, u.in.String()), u.in.Pos())
+		}
+		for _, cs := range m.callees {
+			if !cx.guarded(F, cs.call) {
+				visit(cs.mem)
+			}
+		}
+	}
+	visit(top)
+	if res.st == "ok" {
+		res.detail = fmt.Sprintf("%d set-test(s) of %s in the matcher family of %s, each narrowing (the set side only adds rejecting tests / conditions and rejoins with unchanged state, or the unset side always matches); %d other use(s), all inside the regions those tests guard", nTests, F, FuncKey(top.fn), nUses)
+	}
+	an.cache[key] = res
+	return res
+}
+
+// ---- finding the matchers
+
+func c08BoundTarget(w *ssa.Function) *ssa.Function {
+	if !strings.HasSuffix(w.Name(), "$bound") || len(w.Blocks) == 0 {
+		return nil
+	}
+	for _, in := range w.Blocks[0].Instrs {
+		if c, ok := in.(*ssa.Call); ok {
+			return c.Call.StaticCallee()
+		}
+	}
+	return nil
+}
+
+// rootMatcher: the function whose result (*Constraint).matcher() hands out:
+// matcher returns field X of the receiver, and X is only ever assigned the
+// result of one function applied to the same receiver.
+func (an *c08LeafAn) rootMatcher() (*c08Member, string) {
+	mfn := an.p.Func(c08Pkg, "Constraint", "matcher")
+	field := ""
+	for _, ri := range Returns(mfn) {
+		if len(ri.Results) != 1 {
+			return nil, "matcher() has an unexpected result list"
+		}
+		base, n, f, ok := c08FieldLoad(originValue(ri.Results[0]))
+		if !ok || !c08IsType(n, c08Pkg, "Constraint") || originValue(base) != ssa.Value(mfn.Params[0]) || (field != "" && field != f) {
+			return nil, "matcher() does not return one field of its receiver"
+		}
+		field = f
+	}
+	var gen *ssa.Function
+	for _, g := range an.p.FuncsIn(c08Pkg) {
+		for _, b := range g.Blocks {
+			for _, in := range b.Instrs {
+				st, ok := in.(*ssa.Store)
+				if !ok {
+					continue
+				}
+				fa, ok := st.Addr.(*ssa.FieldAddr)
+				if !ok {
+					continue
+				}
+				base, n, f, ok := c08FieldAddr(fa)
+				if !ok || f != field || !c08IsType(n, c08Pkg, "Constraint") {
+					continue
+				}
+				call, isCall := originValue(st.Val).(*ssa.Call)
+				if !isCall || call.Call.StaticCallee() == nil || len(call.Call.Args) == 0 || !sameOrigin(call.Call.Args[0], base) {
+					return nil, "Constraint." + field + " is assigned something else than a builder's result for the same constraint in " + FuncKey(g)
+				}
+				if gen != nil && gen != call.Call.StaticCallee() {
+					return nil, "Constraint." + field + " is assigned from several builders"
+				}
+				gen = call.Call.StaticCallee()
+			}
+		}
+	}
+	if gen == nil || len(gen.Blocks) == 0 || !c08ResultIsFunc(gen) {
+		return nil, "no builder of Constraint." + field + " found"
+	}
+	return an.member(gen, gen.Params[0]), ""
+}
+
+func (an *c08LeafAn) matcherFor(inst c08Inst) (*c08Member, string) {
+	if m, ok := an.matchers[inst.path]; ok {
+		if m == nil {
+			return nil, "no matcher found for " + inst.path
+		}
+		return m, ""
+	}
+	an.matchers[inst.path] = nil
+	if inst.from == nil {
+		m, why := an.rootMatcher()
+		an.matchers[inst.path] = m
+		return m, why
+	}
+	parent, why := an.matcherFor(an.insts[inst.from.inst])
+	if parent == nil {
+		return nil, why
+	}
+	F := inst.from.field
+	cands := map[*ssa.Function]bool{}
+	for _, m := range parent.family() {
+		for _, g := range m.funcs {
+			for _, b := range g.Blocks {
+				for _, in := range b.Instrs {
+					switch x := in.(type) {
+					case *ssa.MakeClosure:
+						w := x.Fn.(*ssa.Function)
+						if len(x.Bindings) == 1 && c08Has(m.fieldsOf(x.Bindings[0]), F) {
+							if t := c08BoundTarget(w); t != nil {
+								cands[t] = true
+							}
+						}
+					case *ssa.Call:
+						f := x.Call.StaticCallee()
+						if f == nil || x.Call.IsInvoke() || len(x.Call.Args) == 0 || !c08Has(m.fieldsOf(x.Call.Args[0]), F) {
+							continue
+						}
+						if InModule(f) && len(f.Blocks) > 0 && len(f.Params) > 0 && NamedOf(f.Params[0].Type()) == inst.named && (c08ResultIsVerdict(f) || c08ResultIsFunc(f)) && !an.pureHelper(f) {
+							cands[f] = true
+						}
+					}
+				}
+			}
+		}
+	}
+	if len(cands) != 1 {
+		var names []string
+		for f := range cands {
+			names = append(names, FuncKey(f))
+		}
+		sort.Strings(names)
+		return nil, fmt.Sprintf("%d candidate matchers for %s (field %s of %s) in the matcher family of %s: %v", len(cands), inst.path, F, inst.from.named.Obj().Name(), FuncKey(parent.fn), names)
+	}
+	for f := range cands {
+		m := an.member(f, f.Params[0])
+		an.matchers[inst.path] = m
+		return m, ""
+	}
+	return nil, ""
+}
+
+// ---- the add-only re-check of the At exception
+
+// c08AddOnlySet: Corpus.permanodesSetByNodeType only ever grows: the field is
+// assigned fresh maps only, nothing is deleted from the outer or inner maps,
+// inner entries are only set to true.
+func c08AddOnlySet(p *Program) (ok bool, detail string, site token.Pos) {
+	const field = "permanodesSetByNodeType"
+	isField := func(v ssa.Value) bool {
+		u, ok := v.(*ssa.UnOp)
+		if !ok || u.Op != token.MUL {
+			return false
+		}
+		fa, ok := u.X.(*ssa.FieldAddr)
+		if !ok {
+			return false
+		}
+		_, n, f, ok := c08FieldAddr(fa)
+		return ok && f == field && c08IsType(n, "pkg/index", "Corpus")
+	}
+	if c08FieldIndex(p.NamedType("pkg/index", "Corpus"), field) < 0 {
+		brokenf("anchor unresolved: pkg/index.Corpus.%s", field)
+	}
+	adds, reads := 0, 0
+	var bad []string
+	for _, g := range p.FuncsIn("pkg/index") {
+		for _, b := range g.Blocks {
+			for _, in := range b.Instrs {
+				switch x := in.(type) {
+				case *ssa.Store:
+					if fa, isFA := x.Addr.(*ssa.FieldAddr); isFA {
+						if _, n, f, ok := c08FieldAddr(fa); ok && f == field && c08IsType(n, "pkg/index", "Corpus") {
+							if _, isMake := originValue(x.Val).(*ssa.MakeMap); !isMake {
+								bad = append(bad, FuncKey(g)+" assigns the field something else than a fresh map")
+							}
+							site = x.Pos()
+						}
+					}
+				case *ssa.Call:
+					if bi, isB := x.Call.Value.(*ssa.Builtin); isB && bi.Name() == "delete" && len(x.Call.Args) > 0 && DependsOn(x.Call.Args[0], isField) {
+						bad = append(bad, FuncKey(g)+" deletes from the set")
+					}
+				case *ssa.MapUpdate:
+					if !DependsOn(x.Map, isField) {
+						continue
+					}
+					if c08IsBool(x.Value.Type()) {
+						if c, isC := c08ConstBool(originValue(x.Value)); !isC || !c {
+							bad = append(bad, FuncKey(g)+" stores a value other than true into a per-type set")
+						}
+						adds++
+					} else if _, isMake := originValue(x.Value).(*ssa.MakeMap); !isMake {
+						bad = append(bad, FuncKey(g)+" replaces a per-type set by something else than a fresh map")
+					}
+				case *ssa.Lookup:
+					if isField(x.X) {
+						reads++
+					}
+				}
+			}
+		}
+	}
+	if adds == 0 {
+		bad = append(bad, "no insertion into a per-type set found")
+	}
+	if len(bad) > 0 {
+		return false, strings.Join(c08Uniq(bad), "; "), site
+	}
+	return true, fmt.Sprintf("pkg/index.Corpus.%s is assigned fresh maps only, %d insertion site(s) set entries to true, %d look-up(s), no delete: a permanode stays in the set of every node type it ever had", field, adds, reads), site
+}
+
+// c08ConjunctiveSlice: the matcher builder returns (for two or more
+// conditions) the bound method of a slice-of-matchers type; that method reports a
+// match only after its loop over the slice: every return inside a loop cannot
+// report a match.
+func c08ConjunctiveSlice(p *Program, r *Reporter, gen *c08Member) {
+	var meth *ssa.Function
+	for _, b := range gen.fn.Blocks {
+		for _, in := range b.Instrs {
+			if mc, ok := in.(*ssa.MakeClosure); ok {
+				if t := c08BoundTarget(mc.Fn.(*ssa.Function)); t != nil && len(mc.Bindings) == 1 {
+					if _, isSlice := mc.Bindings[0].Type().Underlying().(*types.Slice); isSlice {
+						meth = t
+					}
+				}
+			}
+		}
+	}
+	key := FuncKey(gen.fn) + "#conjunction"
+	if meth == nil {
+		r.OKTable("P-leaf", key, p.Pos(gen.fn.Pos()), "the builder does not combine conditions through a slice-of-matchers method; how it combines them is not decided")
+		return
+	}
+	m := gen.an.member(meth, meth.Params[0])
+	cx := m.cx(nil)
+	var bad []string
+	loops, exits := 0, 0
+	for _, b := range meth.Blocks {
+		if len(b.Succs) != 0 {
+			continue
+		}
+		exits++
+		if c08LoopDepth(b) > 0 || func() bool {
+			// a return block entered from inside a loop body (not from the loop condition in its header)
+			for _, p := range b.Preds {
+				isHeader := false
+				for _, q := range p.Preds {
+					if p.Dominates(q) {
+						isHeader = true
+					}
+				}
+				if c08LoopDepth(p) > 0 && !isHeader {
+					return true
+				}
+			}
+			return false
+		}() {
+			loops++
+			if !cx.harmless(b) {
+				bad = append(bad, fmt.Sprintf("block %d returns from inside the loop a verdict that may be a match", b.Index))
+			}
+		}
+	}
+	if loops == 0 {
+		bad = append(bad, "no early return inside the loop: not the expected all-must-match shape")
+	}
+	r.Check(len(bad) == 0, "P-leaf", key, p.Pos(meth.Pos()),
+		fmt.Sprintf("%s (what %s returns for several conditions) leaves its loop over the conditions early only with `false`/an error (%d such exit(s)); a match is reported only after the loop", FuncKey(meth), FuncKey(gen.fn), loops),
+		FuncKey(meth)+": "+strings.Join(bad, "; ")+": a field of the constraint that adds a condition would no longer narrow the result")
+}
+
+// ---- the rule
+
+func c08RuleLeaf(p *Program, r *Reporter, leaves []c08LeafPath, preds map[*ssa.Function]bool) {
+	an := &c08LeafAn{p: p, preds: preds, insts: map[string]c08Inst{}, matchers: map[string]*c08Matcher{}, members: map[*ssa.Function]map[*ssa.Parameter]*c08Member{}, cache: map[string]c08FieldRes{}, dyn: map[string]*c08DynRes{}, pure: map[*ssa.Function]int{}}
+	type row struct {
+		res    c08FieldRes
+		worlds int
+	}
+	type structRow struct {
+		tested map[string]bool
+		unread map[string]bool
+		und    []string
+		site   token.Pos
+		n      int
+	}
+	rows := map[string]*row{}
+	srows := map[string]*structRow{}
+	rank := map[string]int{"unread": 0, "ok": 1, "exception": 2, "und": 3, "modal": 4}
+	usedException := false
+	nWorlds := 0
+	for _, lp := range leaves {
+		pk := FuncKey(lp.fn)
+		ws := an.worlds(lp)
+		if len(ws) == 0 {
+			r.Undecided("P-leaf", pk+"#leaf/path-"+lp.paths[lp.idx].String(), p.Pos(lp.ret.Pos()), "the facts of this restricting leaf path are contradictory as reconstructed; the path analysis does not understand the predicate")
+			continue
+		}
+		for _, w := range ws {
+			nWorlds++
+			var insts []string
+			for k := range w {
+				insts = append(insts, k)
+			}
+			sort.Strings(insts)
+			for _, ip := range insts {
+				lv := w[ip]
+				sn := lv.inst.named.Obj().Name()
+				if sn == "LogicalConstraint" {
+					continue // how sub-results are combined is P-restrict's subject
+				}
+				sk := pk + "#leaf/" + sn
+				sr := srows[sk]
+				if sr == nil {
+					sr = &structRow{tested: map[string]bool{}, unread: map[string]bool{}, site: lp.ret.Pos()}
+					srows[sk] = sr
+				}
+				sr.n++
+				m, why := an.matcherFor(lv.inst)
+				if m == nil {
+					sr.und = append(sr.und, why)
+					continue
+				}
+				st := c08Struct(lv.inst.named)
+				for i := 0; i < st.NumFields(); i++ {
+					F := st.Field(i).Name()
+					if _, isTested := lv.tested[F]; isTested {
+						sr.tested[F] = true
+						continue
+					}
+					exc := ""
+					if e, ok := c08LeafParamFields[pk+"|"+sn+"."+F]; ok {
+						exc = e.typ
+					}
+					res := an.checkField(m, lv.tested, F, exc)
+					if res.st == "unread" {
+						sr.unread[F] = true
+						continue
+					}
+					if res.st == "exception" {
+						usedException = true
+					}
+					fk := sk + "." + F
+					if rows[fk] == nil {
+						rows[fk] = &row{res: res}
+					} else if rank[res.st] > rank[rows[fk].res.st] {
+						rows[fk].res = res
+					}
+					rows[fk].worlds++
+				}
+			}
+		}
+	}
+	r.Analysed("leaf_worlds", nWorlds)
+	var keys []string
+	for k := range rows {
+		keys = append(keys, k)
+	}
+	sort.Strings(keys)
+	for _, k := range keys {
+		x := rows[k]
+		site := p.Pos(x.res.site)
+		F := k[strings.LastIndex(k, ".")+1:]
+		switch x.res.st {
+		case "ok":
+			r.OK("P-leaf", k, site, x.res.detail)
+		case "exception":
+			pk := k[:strings.Index(k, "#")]
+			e := c08LeafParamFields[pk+"|"+k[strings.Index(k, "#leaf/")+6:]]
+			r.OKTable("P-leaf", k, site, "recorded exception (re-checked: every use outside its own set-test hands the value on as a "+e.typ+" call argument): "+e.reason)
+		case "modal":
+			r.Violation("P-leaf", k, site, "the predicate derives a restricting result without testing "+F+", but "+F+" is MODAL in the matcher: "+x.res.detail+". A constraint with "+F+" set can match blobs outside the restricted candidate source, which are then missed")
+		default:
+			r.Undecided("P-leaf", k, site, "the predicate derives a restricting result without testing "+F+", and the matcher's use of "+F+" cannot be classified as narrowing: "+x.res.detail)
+		}
+	}
+	keys = keys[:0]
+	for k := range srows {
+		keys = append(keys, k)
+	}
+	sort.Strings(keys)
+	for _, k := range keys {
+		sr := srows[k]
+		if len(sr.und) > 0 {
+			r.Undecided("P-leaf", k, p.Pos(sr.site), "the predicate relies on fields of this struct, but its matcher cannot be located: "+strings.Join(c08Uniq(sr.und), "; "))
+			continue
+		}
+		// a field may be unread under one path's facts and tested on another
+		var un []string
+		for f := range sr.unread {
+			un = append(un, f)
+		}
+		sort.Strings(un)
+		r.OKTable("P-leaf", k, p.Pos(sr.site), fmt.Sprintf("relied on / tested by the predicate on its restricting leaf path(s): %v; not read by the matcher under those paths' facts: %v; every other field has its own row", c08Keys(sr.tested), un))
+	}
+	if gen, _ := an.rootMatcher(); gen != nil {
+		c08ConjunctiveSlice(p, r, gen)
+	}
+	if usedException {
+		ok, detail, site := c08AddOnlySet(p)
+		r.Check(ok, "P-leaf", "pkg/index.Corpus.permanodesSetByNodeType#add-only", p.Pos(site), detail, "the exception for PermanodeConstraint.At needs the by-node-type sets to keep every permanode that ever had the type: "+detail)
+	}
+	r.Floor("P-leaf", 60) // today 65: 57 field rows, 6 struct rows, #conjunction, #add-only
 }
